@@ -159,6 +159,7 @@ Xfer(tw, wl, fca) ==
     taint3 = FALSE;                              \* known finding 6.3: a wait_n dequeued a record a waker had already unlinked
 
   define { CurOp(t) == Prog[t][ip[t]]
+           GateOK(k) == (word & SPIN) = 0 /\ (cvword & CVSPIN) = 0 /\ Len(queue) + Len(cvq) >= k
            W(t) == mw[t]
            SemOf(x) == IF x > 0 THEN x ELSE nwsem[-x]
            ThreadOf(x) == IF x < 0 THEN -x ELSE CHOOSE u \in Threads : mw[u] = x }
@@ -456,11 +457,12 @@ Xfer(tw, wl, fca) ==
   }
 
   \* ------------------------------------------------------------------ nsync_cv_wait_with_deadline (cv.c:190-308), nsync_mu in mode lt
-  procedure cv_wait(dl, cn)
+  procedure cv_wait(dl, cn, gen)
     variables old = 0, lt = 0, rc = 0, so = 0, out = 0;
   {
    cw_1_st:  waiting[W(self)] := 1;                                                 \* cv.c:196 ATM_STORE
              wc[W(self)] := 0; picked[self] := FALSE;
+             if (gen) { cvmu[W(self)] := FALSE; wl[W(self)] := 0; lt := 1; goto cw_3_ld; };   \* a lock that is not an nsync_mu: cv.c:202-205
    cw_2_ld:  lt := IF (word & WLOCK) # 0 THEN 1 ELSE 2;                          \* cv.c:210
              cvmu[W(self)] := TRUE; wl[W(self)] := lt;
    cw_3_ld:  old := cvword;                                                      \* cv.c:228 nsync_spin_test_and_set_
@@ -559,13 +561,14 @@ Xfer(tw, wl, fca) ==
          else if (CurOp(self).op = "trylock") { ip[self] := ip[self] + 1; call mu_trylock(CurOp(self).lt); }
          else if (CurOp(self).op = "unlock") { ip[self] := ip[self] + 1; held[self] := 0; call mu_unlock(CurOp(self).lt, FALSE); }
          else if (CurOp(self).op = "unlockww") { ip[self] := ip[self] + 1; held[self] := 0; call mu_unlock(1, TRUE); }
+         else if (CurOp(self).op = "gate") { await GateOK(CurOp(self).x); ip[self] := ip[self] + 1; }   \* scenario device: start only once x threads are queued
          else if (CurOp(self).op = "set") { ip[self] := ip[self] + 1; data[CurOp(self).v] := CurOp(self).x; }
          else if (CurOp(self).op = "skipunless") {                                 \* after trylock
            ip[self] := IF ret[self] # 1 THEN ip[self] + 1 + CurOp(self).skip ELSE ip[self] + 1; }
          else if (CurOp(self).op = "muwait") { ip[self] := ip[self] + 1; call mu_wait(CurOp(self).c, CurOp(self).dl, CurOp(self).cn); }
-         else if (CurOp(self).op = "cvwait") { ip[self] := ip[self] + 1; GetWaiter(); call cv_wait(CurOp(self).dl, CurOp(self).cn); }
+         else if (CurOp(self).op = "cvwait") { ip[self] := ip[self] + 1; GetWaiter(); call cv_wait(CurOp(self).dl, CurOp(self).cn, CurOp(self).x = 9); }
          else if (CurOp(self).op = "cvloop") {                                     \* while (!cell) cv_wait; gives up on timeout/cancel
-           if (data[CurOp(self).v] = 0 /\ ret[self] \notin {ETIMEDOUT, ECANCELED}) { GetWaiter(); call cv_wait(CurOp(self).dl, CurOp(self).cn); }
+           if (data[CurOp(self).v] = 0 /\ ret[self] \notin {ETIMEDOUT, ECANCELED}) { GetWaiter(); call cv_wait(CurOp(self).dl, CurOp(self).cn, CurOp(self).x = 9); }
            else { ip[self] := ip[self] + 1; ret[self] := -1; };
          }
          else if (CurOp(self).op = "waitn") { ip[self] := ip[self] + 1; GetWaiter(); call wait_n(CurOp(self).dl); }
@@ -592,29 +595,29 @@ Xfer(tw, wl, fca) ==
   }
 } *)
 \* BEGIN TRANSLATION
-\* Procedure variable old of procedure lock_slow at line 176 col 15 changed to old_
-\* Procedure variable old of procedure unlock_slow at line 215 col 15 changed to old_u
-\* Procedure variable rmq of procedure unlock_slow at line 215 col 101 changed to rmq_
-\* Procedure variable old of procedure mu_lock at line 276 col 15 changed to old_m
-\* Procedure variable old of procedure mu_trylock at line 289 col 15 changed to old_mu
-\* Procedure variable old of procedure mu_unlock at line 300 col 15 changed to old_mu_
-\* Procedure variable old of procedure try_acquire at line 330 col 15 changed to old_t
-\* Procedure variable old of procedure mu_wait at line 357 col 15 changed to old_mu_w
-\* Procedure variable lt of procedure mu_wait at line 357 col 24 changed to lt_
-\* Procedure variable out of procedure mu_wait at line 357 col 46 changed to out_
-\* Procedure variable rc of procedure mu_wait at line 357 col 55 changed to rc_
-\* Procedure variable so of procedure mu_wait at line 357 col 86 changed to so_
-\* Procedure variable old of procedure cv_wake at line 428 col 15 changed to old_c
-\* Procedure variable old of procedure cv_wait at line 460 col 15 changed to old_cv
-\* Procedure variable lt of procedure cv_wait at line 460 col 24 changed to lt_c
-\* Procedure variable rc of procedure cv_wait at line 460 col 32 changed to rc_c
-\* Parameter lt of procedure lock_slow at line 175 col 23 changed to lt_l
-\* Parameter lt of procedure unlock_slow at line 214 col 25 changed to lt_u
-\* Parameter lt of procedure mu_lock at line 275 col 21 changed to lt_m
-\* Parameter lt of procedure mu_trylock at line 288 col 24 changed to lt_mu
-\* Parameter lt of procedure mu_unlock at line 299 col 23 changed to lt_mu_
-\* Parameter dl of procedure mu_wait at line 356 col 24 changed to dl_
-\* Parameter cn of procedure mu_wait at line 356 col 28 changed to cn_
+\* Procedure variable old of procedure lock_slow at line 177 col 15 changed to old_
+\* Procedure variable old of procedure unlock_slow at line 216 col 15 changed to old_u
+\* Procedure variable rmq of procedure unlock_slow at line 216 col 101 changed to rmq_
+\* Procedure variable old of procedure mu_lock at line 277 col 15 changed to old_m
+\* Procedure variable old of procedure mu_trylock at line 290 col 15 changed to old_mu
+\* Procedure variable old of procedure mu_unlock at line 301 col 15 changed to old_mu_
+\* Procedure variable old of procedure try_acquire at line 331 col 15 changed to old_t
+\* Procedure variable old of procedure mu_wait at line 358 col 15 changed to old_mu_w
+\* Procedure variable lt of procedure mu_wait at line 358 col 24 changed to lt_
+\* Procedure variable out of procedure mu_wait at line 358 col 46 changed to out_
+\* Procedure variable rc of procedure mu_wait at line 358 col 55 changed to rc_
+\* Procedure variable so of procedure mu_wait at line 358 col 86 changed to so_
+\* Procedure variable old of procedure cv_wake at line 429 col 15 changed to old_c
+\* Procedure variable old of procedure cv_wait at line 461 col 15 changed to old_cv
+\* Procedure variable lt of procedure cv_wait at line 461 col 24 changed to lt_c
+\* Procedure variable rc of procedure cv_wait at line 461 col 32 changed to rc_c
+\* Parameter lt of procedure lock_slow at line 176 col 23 changed to lt_l
+\* Parameter lt of procedure unlock_slow at line 215 col 25 changed to lt_u
+\* Parameter lt of procedure mu_lock at line 276 col 21 changed to lt_m
+\* Parameter lt of procedure mu_trylock at line 289 col 24 changed to lt_mu
+\* Parameter lt of procedure mu_unlock at line 300 col 23 changed to lt_mu_
+\* Parameter dl of procedure mu_wait at line 357 col 24 changed to dl_
+\* Parameter cn of procedure mu_wait at line 357 col 28 changed to cn_
 CONSTANT defaultInitValue
 VARIABLES pc, word, queue, cvword, cvq, waiting, rmc, cvmu, wl, wc, sc, nww, 
           nwsem, sem, data, now, note, nreg, held, ret, sres, picked, sleeps, 
@@ -622,6 +625,7 @@ VARIABLES pc, word, queue, cvword, cvq, waiting, rmc, cvmu, wl, wc, sc, nww,
 
 (* define statement *)
 CurOp(t) == Prog[t][ip[t]]
+GateOK(k) == (word & SPIN) = 0 /\ (cvword & CVSPIN) = 0 /\ Len(queue) + Len(cvq) >= k
 W(t) == mw[t]
 SemOf(x) == IF x > 0 THEN x ELSE nwsem[-x]
 ThreadOf(x) == IF x < 0 THEN -x ELSE CHOOSE u \in Threads : mw[u] = x
@@ -630,8 +634,8 @@ VARIABLES lt_l, clear, old_, zlo, zhi, wcnt, lw, lt_u, old_u, tc, nwl, wtrs,
           wake, wty, sor, cor, rmq_, late, lt_m, old_m, lt_mu, old_mu, lt_mu_, 
           ww, old_mu_, sdl, scn, lt, rc, old_t, c, dl_, cn_, old_mu_w, lt_, 
           first, out_, rc_, hadw, ata, so_, havel, tw, allr, omw, fca, sorw, 
-          all, old_c, tws, alr, rmq, dl, cn, old_cv, lt_c, rc_c, so, out, ndl, 
-          old, wq, dw, k
+          all, old_c, tws, alr, rmq, dl, cn, gen, old_cv, lt_c, rc_c, so, out, 
+          ndl, old, wq, dw, k
 
 vars == << pc, word, queue, cvword, cvq, waiting, rmc, cvmu, wl, wc, sc, nww, 
            nwsem, sem, data, now, note, nreg, held, ret, sres, picked, sleeps, 
@@ -640,8 +644,8 @@ vars == << pc, word, queue, cvword, cvq, waiting, rmc, cvmu, wl, wc, sc, nww,
            wtrs, wake, wty, sor, cor, rmq_, late, lt_m, old_m, lt_mu, old_mu, 
            lt_mu_, ww, old_mu_, sdl, scn, lt, rc, old_t, c, dl_, cn_, 
            old_mu_w, lt_, first, out_, rc_, hadw, ata, so_, havel, tw, allr, 
-           omw, fca, sorw, all, old_c, tws, alr, rmq, dl, cn, old_cv, lt_c, 
-           rc_c, so, out, ndl, old, wq, dw, k >>
+           omw, fca, sorw, all, old_c, tws, alr, rmq, dl, cn, gen, old_cv, 
+           lt_c, rc_c, so, out, ndl, old, wq, dw, k >>
 
 ProcSet == (Threads)
 
@@ -742,6 +746,7 @@ Init == (* Global variables *)
         (* Procedure cv_wait *)
         /\ dl = [ self \in ProcSet |-> defaultInitValue]
         /\ cn = [ self \in ProcSet |-> defaultInitValue]
+        /\ gen = [ self \in ProcSet |-> defaultInitValue]
         /\ old_cv = [ self \in ProcSet |-> 0]
         /\ lt_c = [ self \in ProcSet |-> 0]
         /\ rc_c = [ self \in ProcSet |-> 0]
@@ -779,8 +784,8 @@ ls_1_ld(self) == /\ pc[self] = "ls_1_ld"
                                  old_mu_, sdl, scn, lt, rc, old_t, c, dl_, cn_, 
                                  old_mu_w, lt_, first, out_, rc_, hadw, ata, 
                                  so_, havel, tw, allr, omw, fca, sorw, all, 
-                                 old_c, tws, alr, rmq, dl, cn, old_cv, lt_c, 
-                                 rc_c, so, out, ndl, old, wq, dw, k >>
+                                 old_c, tws, alr, rmq, dl, cn, gen, old_cv, 
+                                 lt_c, rc_c, so, out, ndl, old, wq, dw, k >>
 
 ls_d(self) == /\ pc[self] = "ls_d"
               /\ pc' = [pc EXCEPT ![self] = "ls_1_ld"]
@@ -794,8 +799,8 @@ ls_d(self) == /\ pc[self] = "ls_d"
                               ww, old_mu_, sdl, scn, lt, rc, old_t, c, dl_, 
                               cn_, old_mu_w, lt_, first, out_, rc_, hadw, ata, 
                               so_, havel, tw, allr, omw, fca, sorw, all, old_c, 
-                              tws, alr, rmq, dl, cn, old_cv, lt_c, rc_c, so, 
-                              out, ndl, old, wq, dw, k >>
+                              tws, alr, rmq, dl, cn, gen, old_cv, lt_c, rc_c, 
+                              so, out, ndl, old, wq, dw, k >>
 
 ls_2_cas(self) == /\ pc[self] = "ls_2_cas"
                   /\ IF word = old_[self]
@@ -823,7 +828,7 @@ ls_2_cas(self) == /\ pc[self] = "ls_2_cas"
                                   lt_mu_, ww, old_mu_, sdl, scn, lt, rc, old_t, 
                                   c, dl_, cn_, old_mu_w, lt_, first, out_, rc_, 
                                   hadw, ata, so_, havel, tw, allr, omw, fca, 
-                                  sorw, all, old_c, tws, alr, rmq, dl, cn, 
+                                  sorw, all, old_c, tws, alr, rmq, dl, cn, gen, 
                                   old_cv, lt_c, rc_c, so, out, ndl, old, wq, 
                                   dw, k >>
 
@@ -844,8 +849,8 @@ ls_3_cas(self) == /\ pc[self] = "ls_3_cas"
                                   sdl, scn, lt, rc, old_t, c, dl_, cn_, 
                                   old_mu_w, lt_, first, out_, rc_, hadw, ata, 
                                   so_, havel, tw, allr, omw, fca, sorw, all, 
-                                  old_c, tws, alr, rmq, dl, cn, old_cv, lt_c, 
-                                  rc_c, so, out, ndl, old, wq, dw, k >>
+                                  old_c, tws, alr, rmq, dl, cn, gen, old_cv, 
+                                  lt_c, rc_c, so, out, ndl, old, wq, dw, k >>
 
 ls_4_st(self) == /\ pc[self] = "ls_4_st"
                  /\ waiting' = [waiting EXCEPT ![W(self)] = 1]
@@ -861,7 +866,7 @@ ls_4_st(self) == /\ pc[self] = "ls_4_st"
                                  lt_mu_, ww, old_mu_, sdl, scn, lt, rc, old_t, 
                                  c, dl_, cn_, old_mu_w, lt_, first, out_, rc_, 
                                  hadw, ata, so_, havel, tw, allr, omw, fca, 
-                                 sorw, all, old_c, tws, alr, rmq, dl, cn, 
+                                 sorw, all, old_c, tws, alr, rmq, dl, cn, gen, 
                                  old_cv, lt_c, rc_c, so, out, ndl, old, wq, dw, 
                                  k >>
 
@@ -879,8 +884,8 @@ ls_5_ld(self) == /\ pc[self] = "ls_5_ld"
                                  old_t, c, dl_, cn_, old_mu_w, lt_, first, 
                                  out_, rc_, hadw, ata, so_, havel, tw, allr, 
                                  omw, fca, sorw, all, old_c, tws, alr, rmq, dl, 
-                                 cn, old_cv, lt_c, rc_c, so, out, ndl, old, wq, 
-                                 dw, k >>
+                                 cn, gen, old_cv, lt_c, rc_c, so, out, ndl, 
+                                 old, wq, dw, k >>
 
 ls_6_cas(self) == /\ pc[self] = "ls_6_cas"
                   /\ IF word = old_[self]
@@ -899,8 +904,8 @@ ls_6_cas(self) == /\ pc[self] = "ls_6_cas"
                                   sdl, scn, lt, rc, old_t, c, dl_, cn_, 
                                   old_mu_w, lt_, first, out_, rc_, hadw, ata, 
                                   so_, havel, tw, allr, omw, fca, sorw, all, 
-                                  old_c, tws, alr, rmq, dl, cn, old_cv, lt_c, 
-                                  rc_c, so, out, ndl, old, wq, dw, k >>
+                                  old_c, tws, alr, rmq, dl, cn, gen, old_cv, 
+                                  lt_c, rc_c, so, out, ndl, old, wq, dw, k >>
 
 ls_7_ld(self) == /\ pc[self] = "ls_7_ld"
                  /\ IF waiting[W(self)] # 0
@@ -920,7 +925,7 @@ ls_7_ld(self) == /\ pc[self] = "ls_7_ld"
                                  lt_mu_, ww, old_mu_, sdl, scn, lt, rc, old_t, 
                                  c, dl_, cn_, old_mu_w, lt_, first, out_, rc_, 
                                  hadw, ata, so_, havel, tw, allr, omw, fca, 
-                                 sorw, all, old_c, tws, alr, rmq, dl, cn, 
+                                 sorw, all, old_c, tws, alr, rmq, dl, cn, gen, 
                                  old_cv, lt_c, rc_c, so, out, ndl, old, wq, dw, 
                                  k >>
 
@@ -939,8 +944,8 @@ ls_8_p(self) == /\ pc[self] = "ls_8_p"
                                 ww, old_mu_, sdl, scn, lt, rc, old_t, c, dl_, 
                                 cn_, old_mu_w, lt_, first, out_, rc_, hadw, 
                                 ata, so_, havel, tw, allr, omw, fca, sorw, all, 
-                                old_c, tws, alr, rmq, dl, cn, old_cv, lt_c, 
-                                rc_c, so, out, ndl, old, wq, dw, k >>
+                                old_c, tws, alr, rmq, dl, cn, gen, old_cv, 
+                                lt_c, rc_c, so, out, ndl, old, wq, dw, k >>
 
 lock_slow(self) == ls_1_ld(self) \/ ls_d(self) \/ ls_2_cas(self)
                       \/ ls_3_cas(self) \/ ls_4_st(self) \/ ls_5_ld(self)
@@ -965,7 +970,7 @@ us_1_ld(self) == /\ pc[self] = "us_1_ld"
                                  lt_mu_, ww, old_mu_, sdl, scn, lt, rc, old_t, 
                                  c, dl_, cn_, old_mu_w, lt_, first, out_, rc_, 
                                  hadw, ata, so_, havel, tw, allr, omw, fca, 
-                                 sorw, all, old_c, tws, alr, rmq, dl, cn, 
+                                 sorw, all, old_c, tws, alr, rmq, dl, cn, gen, 
                                  old_cv, lt_c, rc_c, so, out, ndl, old, wq, dw, 
                                  k >>
 
@@ -981,8 +986,8 @@ us_d(self) == /\ pc[self] = "us_d"
                               ww, old_mu_, sdl, scn, lt, rc, old_t, c, dl_, 
                               cn_, old_mu_w, lt_, first, out_, rc_, hadw, ata, 
                               so_, havel, tw, allr, omw, fca, sorw, all, old_c, 
-                              tws, alr, rmq, dl, cn, old_cv, lt_c, rc_c, so, 
-                              out, ndl, old, wq, dw, k >>
+                              tws, alr, rmq, dl, cn, gen, old_cv, lt_c, rc_c, 
+                              so, out, ndl, old, wq, dw, k >>
 
 us_2_cas(self) == /\ pc[self] = "us_2_cas"
                   /\ IF word = old_u[self]
@@ -1013,8 +1018,9 @@ us_2_cas(self) == /\ pc[self] = "us_2_cas"
                                   ww, old_mu_, sdl, scn, lt, rc, old_t, c, dl_, 
                                   cn_, old_mu_w, lt_, first, out_, rc_, hadw, 
                                   ata, so_, havel, tw, allr, omw, fca, sorw, 
-                                  all, old_c, tws, alr, rmq, dl, cn, old_cv, 
-                                  lt_c, rc_c, so, out, ndl, old, wq, dw, k >>
+                                  all, old_c, tws, alr, rmq, dl, cn, gen, 
+                                  old_cv, lt_c, rc_c, so, out, ndl, old, wq, 
+                                  dw, k >>
 
 us_3_cas(self) == /\ pc[self] = "us_3_cas"
                   /\ IF word = old_u[self]
@@ -1040,8 +1046,8 @@ us_3_cas(self) == /\ pc[self] = "us_3_cas"
                                   lt, rc, old_t, c, dl_, cn_, old_mu_w, lt_, 
                                   first, out_, rc_, hadw, ata, so_, havel, tw, 
                                   allr, omw, fca, sorw, all, old_c, tws, alr, 
-                                  rmq, dl, cn, old_cv, lt_c, rc_c, so, out, 
-                                  ndl, old, wq, dw, k >>
+                                  rmq, dl, cn, gen, old_cv, lt_c, rc_c, so, 
+                                  out, ndl, old, wq, dw, k >>
 
 us_pass_l(self) == /\ pc[self] = "us_pass_l"
                    /\ IF nwl[self] = <<>>
@@ -1064,8 +1070,8 @@ us_pass_l(self) == /\ pc[self] = "us_pass_l"
                                    scn, lt, rc, old_t, c, dl_, cn_, old_mu_w, 
                                    lt_, first, out_, rc_, hadw, ata, so_, 
                                    havel, tw, allr, omw, fca, sorw, all, old_c, 
-                                   tws, alr, rmq, dl, cn, old_cv, lt_c, rc_c, 
-                                   so, out, ndl, old, wq, dw, k >>
+                                   tws, alr, rmq, dl, cn, gen, old_cv, lt_c, 
+                                   rc_c, so, out, ndl, old, wq, dw, k >>
 
 us_rel_l(self) == /\ pc[self] = "us_rel_l"
                   /\ IF tc[self]
@@ -1082,8 +1088,8 @@ us_rel_l(self) == /\ pc[self] = "us_rel_l"
                                   sdl, scn, lt, rc, old_t, c, dl_, cn_, 
                                   old_mu_w, lt_, first, out_, rc_, hadw, ata, 
                                   so_, havel, tw, allr, omw, fca, sorw, all, 
-                                  old_c, tws, alr, rmq, dl, cn, old_cv, lt_c, 
-                                  rc_c, so, out, ndl, old, wq, dw, k >>
+                                  old_c, tws, alr, rmq, dl, cn, gen, old_cv, 
+                                  lt_c, rc_c, so, out, ndl, old, wq, dw, k >>
 
 us_rs_ld(self) == /\ pc[self] = "us_rs_ld"
                   /\ old_u' = [old_u EXCEPT ![self] = word]
@@ -1099,8 +1105,8 @@ us_rs_ld(self) == /\ pc[self] = "us_rs_ld"
                                   lt, rc, old_t, c, dl_, cn_, old_mu_w, lt_, 
                                   first, out_, rc_, hadw, ata, so_, havel, tw, 
                                   allr, omw, fca, sorw, all, old_c, tws, alr, 
-                                  rmq, dl, cn, old_cv, lt_c, rc_c, so, out, 
-                                  ndl, old, wq, dw, k >>
+                                  rmq, dl, cn, gen, old_cv, lt_c, rc_c, so, 
+                                  out, ndl, old, wq, dw, k >>
 
 us_rs_cas(self) == /\ pc[self] = "us_rs_cas"
                    /\ IF word = old_u[self]
@@ -1119,13 +1125,13 @@ us_rs_cas(self) == /\ pc[self] = "us_rs_cas"
                                    sdl, scn, lt, rc, old_t, c, dl_, cn_, 
                                    old_mu_w, lt_, first, out_, rc_, hadw, ata, 
                                    so_, havel, tw, allr, omw, fca, sorw, all, 
-                                   old_c, tws, alr, rmq, dl, cn, old_cv, lt_c, 
-                                   rc_c, so, out, ndl, old, wq, dw, k >>
+                                   old_c, tws, alr, rmq, dl, cn, gen, old_cv, 
+                                   lt_c, rc_c, so, out, ndl, old, wq, dw, k >>
 
 us_scan_l(self) == /\ pc[self] = "us_scan_l"
                    /\ LET r == Scan(nwl[self], 1, <<>>, wty[self], sor[self], sc, wc, wl, data, tc[self]) IN
                         /\ Assert(tc[self] => ((word & WLOCK) # 0 /\ \A u \in Threads : held[u] = 0), 
-                                  "Failure of assertion at line 246, column 16.")
+                                  "Failure of assertion at line 247, column 16.")
                         /\ nwl' = [nwl EXCEPT ![self] = r.l]
                         /\ rmq_' = [rmq_ EXCEPT ![self] = r.wake]
                         /\ wake' = [wake EXCEPT ![self] = wake[self] \o r.wake]
@@ -1144,8 +1150,8 @@ us_scan_l(self) == /\ pc[self] = "us_scan_l"
                                    old_t, c, dl_, cn_, old_mu_w, lt_, first, 
                                    out_, rc_, hadw, ata, so_, havel, tw, allr, 
                                    omw, fca, sorw, all, old_c, tws, alr, rmq, 
-                                   dl, cn, old_cv, lt_c, rc_c, so, out, ndl, 
-                                   old, wq, dw, k >>
+                                   dl, cn, gen, old_cv, lt_c, rc_c, so, out, 
+                                   ndl, old, wq, dw, k >>
 
 us_rmq_l(self) == /\ pc[self] = "us_rmq_l"
                   /\ IF rmq_[self] = <<>>
@@ -1162,8 +1168,8 @@ us_rmq_l(self) == /\ pc[self] = "us_rmq_l"
                                   sdl, scn, lt, rc, old_t, c, dl_, cn_, 
                                   old_mu_w, lt_, first, out_, rc_, hadw, ata, 
                                   so_, havel, tw, allr, omw, fca, sorw, all, 
-                                  old_c, tws, alr, rmq, dl, cn, old_cv, lt_c, 
-                                  rc_c, so, out, ndl, old, wq, dw, k >>
+                                  old_c, tws, alr, rmq, dl, cn, gen, old_cv, 
+                                  lt_c, rc_c, so, out, ndl, old, wq, dw, k >>
 
 us_rm_ld(self) == /\ pc[self] = "us_rm_ld"
                   /\ TRUE
@@ -1179,8 +1185,8 @@ us_rm_ld(self) == /\ pc[self] = "us_rm_ld"
                                   sdl, scn, lt, rc, old_t, c, dl_, cn_, 
                                   old_mu_w, lt_, first, out_, rc_, hadw, ata, 
                                   so_, havel, tw, allr, omw, fca, sorw, all, 
-                                  old_c, tws, alr, rmq, dl, cn, old_cv, lt_c, 
-                                  rc_c, so, out, ndl, old, wq, dw, k >>
+                                  old_c, tws, alr, rmq, dl, cn, gen, old_cv, 
+                                  lt_c, rc_c, so, out, ndl, old, wq, dw, k >>
 
 us_rm_cas(self) == /\ pc[self] = "us_rm_cas"
                    /\ rmc' = [rmc EXCEPT ![Head(rmq_[self])] = rmc[Head(rmq_[self])] + 1]
@@ -1197,8 +1203,8 @@ us_rm_cas(self) == /\ pc[self] = "us_rm_cas"
                                    sdl, scn, lt, rc, old_t, c, dl_, cn_, 
                                    old_mu_w, lt_, first, out_, rc_, hadw, ata, 
                                    so_, havel, tw, allr, omw, fca, sorw, all, 
-                                   old_c, tws, alr, rmq, dl, cn, old_cv, lt_c, 
-                                   rc_c, so, out, ndl, old, wq, dw, k >>
+                                   old_c, tws, alr, rmq, dl, cn, gen, old_cv, 
+                                   lt_c, rc_c, so, out, ndl, old, wq, dw, k >>
 
 us_after_l(self) == /\ pc[self] = "us_after_l"
                     /\ IF tc[self]
@@ -1216,8 +1222,8 @@ us_after_l(self) == /\ pc[self] = "us_after_l"
                                     rc, old_t, c, dl_, cn_, old_mu_w, lt_, 
                                     first, out_, rc_, hadw, ata, so_, havel, 
                                     tw, allr, omw, fca, sorw, all, old_c, tws, 
-                                    alr, rmq, dl, cn, old_cv, lt_c, rc_c, so, 
-                                    out, ndl, old, wq, dw, k >>
+                                    alr, rmq, dl, cn, gen, old_cv, lt_c, rc_c, 
+                                    so, out, ndl, old, wq, dw, k >>
 
 us_ts_ld(self) == /\ pc[self] = "us_ts_ld"
                   /\ old_u' = [old_u EXCEPT ![self] = word]
@@ -1235,8 +1241,8 @@ us_ts_ld(self) == /\ pc[self] = "us_ts_ld"
                                   lt, rc, old_t, c, dl_, cn_, old_mu_w, lt_, 
                                   first, out_, rc_, hadw, ata, so_, havel, tw, 
                                   allr, omw, fca, sorw, all, old_c, tws, alr, 
-                                  rmq, dl, cn, old_cv, lt_c, rc_c, so, out, 
-                                  ndl, old, wq, dw, k >>
+                                  rmq, dl, cn, gen, old_cv, lt_c, rc_c, so, 
+                                  out, ndl, old, wq, dw, k >>
 
 us_ts_cas(self) == /\ pc[self] = "us_ts_cas"
                    /\ IF word = old_u[self]
@@ -1255,8 +1261,8 @@ us_ts_cas(self) == /\ pc[self] = "us_ts_cas"
                                    sdl, scn, lt, rc, old_t, c, dl_, cn_, 
                                    old_mu_w, lt_, first, out_, rc_, hadw, ata, 
                                    so_, havel, tw, allr, omw, fca, sorw, all, 
-                                   old_c, tws, alr, rmq, dl, cn, old_cv, lt_c, 
-                                   rc_c, so, out, ndl, old, wq, dw, k >>
+                                   old_c, tws, alr, rmq, dl, cn, gen, old_cv, 
+                                   lt_c, rc_c, so, out, ndl, old, wq, dw, k >>
 
 us_ts_d(self) == /\ pc[self] = "us_ts_d"
                  /\ pc' = [pc EXCEPT ![self] = "us_ts_ld"]
@@ -1271,8 +1277,8 @@ us_ts_d(self) == /\ pc[self] = "us_ts_d"
                                  old_t, c, dl_, cn_, old_mu_w, lt_, first, 
                                  out_, rc_, hadw, ata, so_, havel, tw, allr, 
                                  omw, fca, sorw, all, old_c, tws, alr, rmq, dl, 
-                                 cn, old_cv, lt_c, rc_c, so, out, ndl, old, wq, 
-                                 dw, k >>
+                                 cn, gen, old_cv, lt_c, rc_c, so, out, ndl, 
+                                 old, wq, dw, k >>
 
 us_merge_l(self) == /\ pc[self] = "us_merge_l"
                     /\ sc' = Merge(sc, wc, Last(wtrs[self]), First(nwl[self]))
@@ -1291,8 +1297,8 @@ us_merge_l(self) == /\ pc[self] = "us_merge_l"
                                     scn, lt, rc, old_t, c, dl_, cn_, old_mu_w, 
                                     lt_, first, out_, rc_, hadw, ata, so_, 
                                     havel, tw, allr, omw, fca, sorw, all, 
-                                    old_c, tws, alr, rmq, dl, cn, old_cv, lt_c, 
-                                    rc_c, so, out, ndl, old, wq, dw, k >>
+                                    old_c, tws, alr, rmq, dl, cn, gen, old_cv, 
+                                    lt_c, rc_c, so, out, ndl, old, wq, dw, k >>
 
 us_4_ld(self) == /\ pc[self] = "us_4_ld"
                  /\ old_u' = [old_u EXCEPT ![self] = word]
@@ -1307,7 +1313,7 @@ us_4_ld(self) == /\ pc[self] = "us_4_ld"
                                  lt_mu_, ww, old_mu_, sdl, scn, lt, rc, old_t, 
                                  c, dl_, cn_, old_mu_w, lt_, first, out_, rc_, 
                                  hadw, ata, so_, havel, tw, allr, omw, fca, 
-                                 sorw, all, old_c, tws, alr, rmq, dl, cn, 
+                                 sorw, all, old_c, tws, alr, rmq, dl, cn, gen, 
                                  old_cv, lt_c, rc_c, so, out, ndl, old, wq, dw, 
                                  k >>
 
@@ -1345,8 +1351,9 @@ us_5_cas(self) == /\ pc[self] = "us_5_cas"
                                   ww, old_mu_, sdl, scn, lt, rc, old_t, c, dl_, 
                                   cn_, old_mu_w, lt_, first, out_, rc_, hadw, 
                                   ata, so_, havel, tw, allr, omw, fca, sorw, 
-                                  all, old_c, tws, alr, rmq, dl, cn, old_cv, 
-                                  lt_c, rc_c, so, out, ndl, old, wq, dw, k >>
+                                  all, old_c, tws, alr, rmq, dl, cn, gen, 
+                                  old_cv, lt_c, rc_c, so, out, ndl, old, wq, 
+                                  dw, k >>
 
 us_6_st(self) == /\ pc[self] = "us_6_st"
                  /\ waiting' = [waiting EXCEPT ![Head(wake[self])] = 0]
@@ -1362,8 +1369,8 @@ us_6_st(self) == /\ pc[self] = "us_6_st"
                                  old_t, c, dl_, cn_, old_mu_w, lt_, first, 
                                  out_, rc_, hadw, ata, so_, havel, tw, allr, 
                                  omw, fca, sorw, all, old_c, tws, alr, rmq, dl, 
-                                 cn, old_cv, lt_c, rc_c, so, out, ndl, old, wq, 
-                                 dw, k >>
+                                 cn, gen, old_cv, lt_c, rc_c, so, out, ndl, 
+                                 old, wq, dw, k >>
 
 us_7_v(self) == /\ pc[self] = "us_7_v"
                 /\ sem' = [sem EXCEPT ![Head(wake[self])] = SetV(sem[Head(wake[self])])]
@@ -1394,8 +1401,8 @@ us_7_v(self) == /\ pc[self] = "us_7_v"
                                 old_mu_, sdl, scn, lt, rc, old_t, c, dl_, cn_, 
                                 old_mu_w, lt_, first, out_, rc_, hadw, ata, 
                                 so_, havel, tw, allr, omw, fca, sorw, all, 
-                                old_c, tws, alr, rmq, dl, cn, old_cv, lt_c, 
-                                rc_c, so, out, ndl, old, wq, dw, k >>
+                                old_c, tws, alr, rmq, dl, cn, gen, old_cv, 
+                                lt_c, rc_c, so, out, ndl, old, wq, dw, k >>
 
 unlock_slow(self) == us_1_ld(self) \/ us_d(self) \/ us_2_cas(self)
                         \/ us_3_cas(self) \/ us_pass_l(self)
@@ -1430,8 +1437,9 @@ lk_1_cas(self) == /\ pc[self] = "lk_1_cas"
                                   old_mu_, sdl, scn, lt, rc, old_t, c, dl_, 
                                   cn_, old_mu_w, lt_, first, out_, rc_, hadw, 
                                   ata, so_, havel, tw, allr, omw, fca, sorw, 
-                                  all, old_c, tws, alr, rmq, dl, cn, old_cv, 
-                                  lt_c, rc_c, so, out, ndl, old, wq, dw, k >>
+                                  all, old_c, tws, alr, rmq, dl, cn, gen, 
+                                  old_cv, lt_c, rc_c, so, out, ndl, old, wq, 
+                                  dw, k >>
 
 lk_2_ld(self) == /\ pc[self] = "lk_2_ld"
                  /\ IF AndZ(word, IF lt_m[self] = 1 THEN WZLO ELSE RZLO, IF lt_m[self] = 1 THEN WZHI ELSE RZHI) # 0
@@ -1477,8 +1485,8 @@ lk_2_ld(self) == /\ pc[self] = "lk_2_ld"
                                  old_mu_, sdl, scn, lt, rc, old_t, c, dl_, cn_, 
                                  old_mu_w, lt_, first, out_, rc_, hadw, ata, 
                                  so_, havel, tw, allr, omw, fca, sorw, all, 
-                                 old_c, tws, alr, rmq, dl, cn, old_cv, lt_c, 
-                                 rc_c, so, out, ndl, old, wq, dw, k >>
+                                 old_c, tws, alr, rmq, dl, cn, gen, old_cv, 
+                                 lt_c, rc_c, so, out, ndl, old, wq, dw, k >>
 
 lk_3_cas(self) == /\ pc[self] = "lk_3_cas"
                   /\ IF word = old_m[self]
@@ -1530,8 +1538,8 @@ lk_3_cas(self) == /\ pc[self] = "lk_3_cas"
                                   rc, old_t, c, dl_, cn_, old_mu_w, lt_, first, 
                                   out_, rc_, hadw, ata, so_, havel, tw, allr, 
                                   omw, fca, sorw, all, old_c, tws, alr, rmq, 
-                                  dl, cn, old_cv, lt_c, rc_c, so, out, ndl, 
-                                  old, wq, dw, k >>
+                                  dl, cn, gen, old_cv, lt_c, rc_c, so, out, 
+                                  ndl, old, wq, dw, k >>
 
 mu_lock(self) == lk_1_cas(self) \/ lk_2_ld(self) \/ lk_3_cas(self)
 
@@ -1557,8 +1565,8 @@ tl_1_cas(self) == /\ pc[self] = "tl_1_cas"
                                   sdl, scn, lt, rc, old_t, c, dl_, cn_, 
                                   old_mu_w, lt_, first, out_, rc_, hadw, ata, 
                                   so_, havel, tw, allr, omw, fca, sorw, all, 
-                                  old_c, tws, alr, rmq, dl, cn, old_cv, lt_c, 
-                                  rc_c, so, out, ndl, old, wq, dw, k >>
+                                  old_c, tws, alr, rmq, dl, cn, gen, old_cv, 
+                                  lt_c, rc_c, so, out, ndl, old, wq, dw, k >>
 
 tl_2_ld(self) == /\ pc[self] = "tl_2_ld"
                  /\ IF AndZ(word, IF lt_mu[self] = 1 THEN WZLO ELSE RZLO, IF lt_mu[self] = 1 THEN WZHI ELSE RZHI) # 0
@@ -1580,8 +1588,8 @@ tl_2_ld(self) == /\ pc[self] = "tl_2_ld"
                                  old_mu_, sdl, scn, lt, rc, old_t, c, dl_, cn_, 
                                  old_mu_w, lt_, first, out_, rc_, hadw, ata, 
                                  so_, havel, tw, allr, omw, fca, sorw, all, 
-                                 old_c, tws, alr, rmq, dl, cn, old_cv, lt_c, 
-                                 rc_c, so, out, ndl, old, wq, dw, k >>
+                                 old_c, tws, alr, rmq, dl, cn, gen, old_cv, 
+                                 lt_c, rc_c, so, out, ndl, old, wq, dw, k >>
 
 tl_3_cas(self) == /\ pc[self] = "tl_3_cas"
                   /\ IF word = old_mu[self]
@@ -1608,8 +1616,8 @@ tl_3_cas(self) == /\ pc[self] = "tl_3_cas"
                                   sdl, scn, lt, rc, old_t, c, dl_, cn_, 
                                   old_mu_w, lt_, first, out_, rc_, hadw, ata, 
                                   so_, havel, tw, allr, omw, fca, sorw, all, 
-                                  old_c, tws, alr, rmq, dl, cn, old_cv, lt_c, 
-                                  rc_c, so, out, ndl, old, wq, dw, k >>
+                                  old_c, tws, alr, rmq, dl, cn, gen, old_cv, 
+                                  lt_c, rc_c, so, out, ndl, old, wq, dw, k >>
 
 mu_trylock(self) == tl_1_cas(self) \/ tl_2_ld(self) \/ tl_3_cas(self)
 
@@ -1633,7 +1641,7 @@ ul_1_cas(self) == /\ pc[self] = "ul_1_cas"
                                   lt_mu, old_mu, sdl, scn, lt, rc, old_t, c, 
                                   dl_, cn_, old_mu_w, lt_, first, out_, rc_, 
                                   hadw, ata, so_, havel, tw, allr, omw, fca, 
-                                  sorw, all, old_c, tws, alr, rmq, dl, cn, 
+                                  sorw, all, old_c, tws, alr, rmq, dl, cn, gen, 
                                   old_cv, lt_c, rc_c, so, out, ndl, old, wq, 
                                   dw, k >>
 
@@ -1739,8 +1747,8 @@ ul_2_ld(self) == /\ pc[self] = "ul_2_ld"
                                  scn, lt, rc, old_t, c, dl_, cn_, old_mu_w, 
                                  lt_, first, out_, rc_, hadw, ata, so_, havel, 
                                  tw, allr, omw, fca, sorw, all, old_c, tws, 
-                                 alr, rmq, dl, cn, old_cv, lt_c, rc_c, so, out, 
-                                 ndl, old, wq, dw, k >>
+                                 alr, rmq, dl, cn, gen, old_cv, lt_c, rc_c, so, 
+                                 out, ndl, old, wq, dw, k >>
 
 ul_3_cas(self) == /\ pc[self] = "ul_3_cas"
                   /\ IF word = old_mu_[self]
@@ -1789,8 +1797,8 @@ ul_3_cas(self) == /\ pc[self] = "ul_3_cas"
                                   scn, lt, rc, old_t, c, dl_, cn_, old_mu_w, 
                                   lt_, first, out_, rc_, hadw, ata, so_, havel, 
                                   tw, allr, omw, fca, sorw, all, old_c, tws, 
-                                  alr, rmq, dl, cn, old_cv, lt_c, rc_c, so, 
-                                  out, ndl, old, wq, dw, k >>
+                                  alr, rmq, dl, cn, gen, old_cv, lt_c, rc_c, 
+                                  so, out, ndl, old, wq, dw, k >>
 
 mu_unlock(self) == ul_1_cas(self) \/ ul_2_ld(self) \/ ul_3_cas(self)
 
@@ -1818,8 +1826,8 @@ sw_1_r(self) == /\ pc[self] = "sw_1_r"
                                 ww, old_mu_, lt, rc, old_t, c, dl_, cn_, 
                                 old_mu_w, lt_, first, out_, rc_, hadw, ata, 
                                 so_, havel, tw, allr, omw, fca, sorw, all, 
-                                old_c, tws, alr, rmq, dl, cn, old_cv, lt_c, 
-                                rc_c, so, out, ndl, old, wq, dw, k >>
+                                old_c, tws, alr, rmq, dl, cn, gen, old_cv, 
+                                lt_c, rc_c, so, out, ndl, old, wq, dw, k >>
 
 sw_2_pd(self) == /\ pc[self] = "sw_2_pd"
                  /\ sem[W(self)] > 0 \/ Expired(sdl[self], now)
@@ -1843,8 +1851,8 @@ sw_2_pd(self) == /\ pc[self] = "sw_2_pd"
                                  old_mu_, lt, rc, old_t, c, dl_, cn_, old_mu_w, 
                                  lt_, first, out_, rc_, hadw, ata, so_, havel, 
                                  tw, allr, omw, fca, sorw, all, old_c, tws, 
-                                 alr, rmq, dl, cn, old_cv, lt_c, rc_c, so, out, 
-                                 ndl, old, wq, dw, k >>
+                                 alr, rmq, dl, cn, gen, old_cv, lt_c, rc_c, so, 
+                                 out, ndl, old, wq, dw, k >>
 
 sem_wait(self) == sw_1_r(self) \/ sw_2_pd(self)
 
@@ -1865,7 +1873,7 @@ ta_1_ld(self) == /\ pc[self] = "ta_1_ld"
                                  old_mu, lt_mu_, ww, old_mu_, sdl, scn, lt, rc, 
                                  c, dl_, cn_, old_mu_w, lt_, first, out_, rc_, 
                                  hadw, ata, so_, havel, tw, allr, omw, fca, 
-                                 sorw, all, old_c, tws, alr, rmq, dl, cn, 
+                                 sorw, all, old_c, tws, alr, rmq, dl, cn, gen, 
                                  old_cv, lt_c, rc_c, so, out, ndl, old, wq, dw, 
                                  k >>
 
@@ -1888,8 +1896,8 @@ ta_2_cas(self) == /\ pc[self] = "ta_2_cas"
                                   sdl, scn, lt, rc, old_t, c, dl_, cn_, 
                                   old_mu_w, lt_, first, out_, rc_, hadw, ata, 
                                   so_, havel, tw, allr, omw, fca, sorw, all, 
-                                  old_c, tws, alr, rmq, dl, cn, old_cv, lt_c, 
-                                  rc_c, so, out, ndl, old, wq, dw, k >>
+                                  old_c, tws, alr, rmq, dl, cn, gen, old_cv, 
+                                  lt_c, rc_c, so, out, ndl, old, wq, dw, k >>
 
 ta_3_cas(self) == /\ pc[self] = "ta_3_cas"
                   /\ IF word = old_t[self]
@@ -1908,8 +1916,8 @@ ta_3_cas(self) == /\ pc[self] = "ta_3_cas"
                                   sdl, scn, lt, rc, old_t, c, dl_, cn_, 
                                   old_mu_w, lt_, first, out_, rc_, hadw, ata, 
                                   so_, havel, tw, allr, omw, fca, sorw, all, 
-                                  old_c, tws, alr, rmq, dl, cn, old_cv, lt_c, 
-                                  rc_c, so, out, ndl, old, wq, dw, k >>
+                                  old_c, tws, alr, rmq, dl, cn, gen, old_cv, 
+                                  lt_c, rc_c, so, out, ndl, old, wq, dw, k >>
 
 ta_d(self) == /\ pc[self] = "ta_d"
               /\ pc' = [pc EXCEPT ![self] = "ta_1_ld"]
@@ -1923,8 +1931,8 @@ ta_d(self) == /\ pc[self] = "ta_d"
                               ww, old_mu_, sdl, scn, lt, rc, old_t, c, dl_, 
                               cn_, old_mu_w, lt_, first, out_, rc_, hadw, ata, 
                               so_, havel, tw, allr, omw, fca, sorw, all, old_c, 
-                              tws, alr, rmq, dl, cn, old_cv, lt_c, rc_c, so, 
-                              out, ndl, old, wq, dw, k >>
+                              tws, alr, rmq, dl, cn, gen, old_cv, lt_c, rc_c, 
+                              so, out, ndl, old, wq, dw, k >>
 
 ta_5_ld(self) == /\ pc[self] = "ta_5_ld"
                  /\ IF waiting[W(self)] = 0
@@ -1941,8 +1949,8 @@ ta_5_ld(self) == /\ pc[self] = "ta_5_ld"
                                  old_t, c, dl_, cn_, old_mu_w, lt_, first, 
                                  out_, rc_, hadw, ata, so_, havel, tw, allr, 
                                  omw, fca, sorw, all, old_c, tws, alr, rmq, dl, 
-                                 cn, old_cv, lt_c, rc_c, so, out, ndl, old, wq, 
-                                 dw, k >>
+                                 cn, gen, old_cv, lt_c, rc_c, so, out, ndl, 
+                                 old, wq, dw, k >>
 
 ta_6_ld(self) == /\ pc[self] = "ta_6_ld"
                  /\ IF rc[self] # rmc[W(self)]
@@ -1962,7 +1970,7 @@ ta_6_ld(self) == /\ pc[self] = "ta_6_ld"
                                  lt_mu_, ww, old_mu_, sdl, scn, lt, rc, old_t, 
                                  c, dl_, cn_, old_mu_w, lt_, first, out_, rc_, 
                                  hadw, ata, so_, havel, tw, allr, omw, fca, 
-                                 sorw, all, old_c, tws, alr, rmq, dl, cn, 
+                                 sorw, all, old_c, tws, alr, rmq, dl, cn, gen, 
                                  old_cv, lt_c, rc_c, so, out, ndl, old, wq, dw, 
                                  k >>
 
@@ -1980,8 +1988,8 @@ ta_7_ld(self) == /\ pc[self] = "ta_7_ld"
                                  old_t, c, dl_, cn_, old_mu_w, lt_, first, 
                                  out_, rc_, hadw, ata, so_, havel, tw, allr, 
                                  omw, fca, sorw, all, old_c, tws, alr, rmq, dl, 
-                                 cn, old_cv, lt_c, rc_c, so, out, ndl, old, wq, 
-                                 dw, k >>
+                                 cn, gen, old_cv, lt_c, rc_c, so, out, ndl, 
+                                 old, wq, dw, k >>
 
 ta_7_cas(self) == /\ pc[self] = "ta_7_cas"
                   /\ rmc' = [rmc EXCEPT ![W(self)] = rmc[W(self)] + 1]
@@ -1997,8 +2005,8 @@ ta_7_cas(self) == /\ pc[self] = "ta_7_cas"
                                   sdl, scn, lt, rc, old_t, c, dl_, cn_, 
                                   old_mu_w, lt_, first, out_, rc_, hadw, ata, 
                                   so_, havel, tw, allr, omw, fca, sorw, all, 
-                                  old_c, tws, alr, rmq, dl, cn, old_cv, lt_c, 
-                                  rc_c, so, out, ndl, old, wq, dw, k >>
+                                  old_c, tws, alr, rmq, dl, cn, gen, old_cv, 
+                                  lt_c, rc_c, so, out, ndl, old, wq, dw, k >>
 
 ta_8_st(self) == /\ pc[self] = "ta_8_st"
                  /\ waiting' = [waiting EXCEPT ![W(self)] = 0]
@@ -2014,8 +2022,8 @@ ta_8_st(self) == /\ pc[self] = "ta_8_st"
                                  old_t, c, dl_, cn_, old_mu_w, lt_, first, 
                                  out_, rc_, hadw, ata, so_, havel, tw, allr, 
                                  omw, fca, sorw, all, old_c, tws, alr, rmq, dl, 
-                                 cn, old_cv, lt_c, rc_c, so, out, ndl, old, wq, 
-                                 dw, k >>
+                                 cn, gen, old_cv, lt_c, rc_c, so, out, ndl, 
+                                 old, wq, dw, k >>
 
 ta_8b_st(self) == /\ pc[self] = "ta_8b_st"
                   /\ word' = old_t[self] + Add(lt[self])
@@ -2036,8 +2044,8 @@ ta_8b_st(self) == /\ pc[self] = "ta_8b_st"
                                   lt_mu_, ww, old_mu_, sdl, scn, c, dl_, cn_, 
                                   old_mu_w, lt_, first, out_, rc_, hadw, ata, 
                                   so_, havel, tw, allr, omw, fca, sorw, all, 
-                                  old_c, tws, alr, rmq, dl, cn, old_cv, lt_c, 
-                                  rc_c, so, out, ndl, old, wq, dw, k >>
+                                  old_c, tws, alr, rmq, dl, cn, gen, old_cv, 
+                                  lt_c, rc_c, so, out, ndl, old, wq, dw, k >>
 
 ta_9_st(self) == /\ pc[self] = "ta_9_st"
                  /\ word' = old_t[self]
@@ -2057,8 +2065,8 @@ ta_9_st(self) == /\ pc[self] = "ta_9_st"
                                  lt_mu_, ww, old_mu_, sdl, scn, c, dl_, cn_, 
                                  old_mu_w, lt_, first, out_, rc_, hadw, ata, 
                                  so_, havel, tw, allr, omw, fca, sorw, all, 
-                                 old_c, tws, alr, rmq, dl, cn, old_cv, lt_c, 
-                                 rc_c, so, out, ndl, old, wq, dw, k >>
+                                 old_c, tws, alr, rmq, dl, cn, gen, old_cv, 
+                                 lt_c, rc_c, so, out, ndl, old, wq, dw, k >>
 
 try_acquire(self) == ta_1_ld(self) \/ ta_2_cas(self) \/ ta_3_cas(self)
                         \/ ta_d(self) \/ ta_5_ld(self) \/ ta_6_ld(self)
@@ -2107,8 +2115,8 @@ mw_1_ld(self) == /\ pc[self] = "mw_1_ld"
                                  lt_m, old_m, lt_mu, old_mu, lt_mu_, ww, 
                                  old_mu_, sdl, scn, lt, rc, old_t, tw, allr, 
                                  omw, fca, sorw, all, old_c, tws, alr, rmq, dl, 
-                                 cn, old_cv, lt_c, rc_c, so, out, ndl, old, wq, 
-                                 dw, k >>
+                                 cn, gen, old_cv, lt_c, rc_c, so, out, ndl, 
+                                 old, wq, dw, k >>
 
 mw_2_st(self) == /\ pc[self] = "mw_2_st"
                  /\ waiting' = [waiting EXCEPT ![W(self)] = 1]
@@ -2126,8 +2134,8 @@ mw_2_st(self) == /\ pc[self] = "mw_2_st"
                                  old_mu_, sdl, scn, lt, rc, old_t, c, dl_, cn_, 
                                  old_mu_w, lt_, first, out_, rc_, hadw, ata, 
                                  so_, havel, tw, allr, omw, fca, sorw, all, 
-                                 old_c, tws, alr, rmq, dl, cn, old_cv, lt_c, 
-                                 rc_c, so, out, ndl, old, wq, dw, k >>
+                                 old_c, tws, alr, rmq, dl, cn, gen, old_cv, 
+                                 lt_c, rc_c, so, out, ndl, old, wq, dw, k >>
 
 mw_3_ld(self) == /\ pc[self] = "mw_3_ld"
                  /\ rc_' = [rc_ EXCEPT ![self] = rmc[W(self)]]
@@ -2143,8 +2151,8 @@ mw_3_ld(self) == /\ pc[self] = "mw_3_ld"
                                  old_t, c, dl_, cn_, old_mu_w, lt_, first, 
                                  out_, hadw, ata, so_, havel, tw, allr, omw, 
                                  fca, sorw, all, old_c, tws, alr, rmq, dl, cn, 
-                                 old_cv, lt_c, rc_c, so, out, ndl, old, wq, dw, 
-                                 k >>
+                                 gen, old_cv, lt_c, rc_c, so, out, ndl, old, 
+                                 wq, dw, k >>
 
 mw_4_ld(self) == /\ pc[self] = "mw_4_ld"
                  /\ old_mu_w' = [old_mu_w EXCEPT ![self] = word]
@@ -2161,7 +2169,7 @@ mw_4_ld(self) == /\ pc[self] = "mw_4_ld"
                                  old_mu, lt_mu_, ww, old_mu_, sdl, scn, lt, rc, 
                                  old_t, c, dl_, cn_, lt_, first, out_, rc_, 
                                  hadw, ata, so_, havel, tw, allr, omw, fca, 
-                                 sorw, all, old_c, tws, alr, rmq, dl, cn, 
+                                 sorw, all, old_c, tws, alr, rmq, dl, cn, gen, 
                                  old_cv, lt_c, rc_c, so, out, ndl, old, wq, dw, 
                                  k >>
 
@@ -2190,8 +2198,8 @@ mw_5_cas(self) == /\ pc[self] = "mw_5_cas"
                                   old_mu_, sdl, scn, lt, rc, old_t, c, dl_, 
                                   cn_, old_mu_w, lt_, out_, rc_, ata, so_, 
                                   havel, tw, allr, omw, fca, sorw, all, old_c, 
-                                  tws, alr, rmq, dl, cn, old_cv, lt_c, rc_c, 
-                                  so, out, ndl, old, wq, dw, k >>
+                                  tws, alr, rmq, dl, cn, gen, old_cv, lt_c, 
+                                  rc_c, so, out, ndl, old, wq, dw, k >>
 
 mw_4_d(self) == /\ pc[self] = "mw_4_d"
                 /\ pc' = [pc EXCEPT ![self] = "mw_4_ld"]
@@ -2205,7 +2213,7 @@ mw_4_d(self) == /\ pc[self] = "mw_4_d"
                                 old_mu, lt_mu_, ww, old_mu_, sdl, scn, lt, rc, 
                                 old_t, c, dl_, cn_, old_mu_w, lt_, first, out_, 
                                 rc_, hadw, ata, so_, havel, tw, allr, omw, fca, 
-                                sorw, all, old_c, tws, alr, rmq, dl, cn, 
+                                sorw, all, old_c, tws, alr, rmq, dl, cn, gen, 
                                 old_cv, lt_c, rc_c, so, out, ndl, old, wq, dw, 
                                 k >>
 
@@ -2223,8 +2231,9 @@ mw_6_ld(self) == /\ pc[self] = "mw_6_ld"
                                  old_mu, lt_mu_, ww, old_mu_, sdl, scn, lt, rc, 
                                  old_t, c, dl_, cn_, lt_, first, out_, rc_, 
                                  hadw, so_, havel, tw, allr, omw, fca, sorw, 
-                                 all, old_c, tws, alr, rmq, dl, cn, old_cv, 
-                                 lt_c, rc_c, so, out, ndl, old, wq, dw, k >>
+                                 all, old_c, tws, alr, rmq, dl, cn, gen, 
+                                 old_cv, lt_c, rc_c, so, out, ndl, old, wq, dw, 
+                                 k >>
 
 mw_7_cas(self) == /\ pc[self] = "mw_7_cas"
                   /\ IF word = old_mu_w[self]
@@ -2275,8 +2284,8 @@ mw_7_cas(self) == /\ pc[self] = "mw_7_cas"
                                   ww, old_mu_, sdl, scn, lt, rc, old_t, c, dl_, 
                                   cn_, old_mu_w, lt_, first, out_, rc_, hadw, 
                                   ata, tw, allr, omw, fca, sorw, all, old_c, 
-                                  tws, alr, rmq, dl, cn, old_cv, lt_c, rc_c, 
-                                  so, out, ndl, old, wq, dw, k >>
+                                  tws, alr, rmq, dl, cn, gen, old_cv, lt_c, 
+                                  rc_c, so, out, ndl, old, wq, dw, k >>
 
 mw_8_ld(self) == /\ pc[self] = "mw_8_ld"
                  /\ IF waiting[W(self)] = 0
@@ -2303,8 +2312,9 @@ mw_8_ld(self) == /\ pc[self] = "mw_8_ld"
                                  lt_mu_, ww, old_mu_, lt, rc, old_t, c, dl_, 
                                  cn_, old_mu_w, lt_, first, out_, rc_, hadw, 
                                  ata, so_, havel, tw, allr, omw, fca, sorw, 
-                                 all, old_c, tws, alr, rmq, dl, cn, old_cv, 
-                                 lt_c, rc_c, so, out, ndl, old, wq, dw, k >>
+                                 all, old_c, tws, alr, rmq, dl, cn, gen, 
+                                 old_cv, lt_c, rc_c, so, out, ndl, old, wq, dw, 
+                                 k >>
 
 mw_9b_l(self) == /\ pc[self] = "mw_9b_l"
                  /\ so_' = [so_ EXCEPT ![self] = sres[self]]
@@ -2322,8 +2332,8 @@ mw_9b_l(self) == /\ pc[self] = "mw_9b_l"
                                  old_t, c, dl_, cn_, old_mu_w, lt_, first, 
                                  out_, rc_, hadw, ata, havel, tw, allr, omw, 
                                  fca, sorw, all, old_c, tws, alr, rmq, dl, cn, 
-                                 old_cv, lt_c, rc_c, so, out, ndl, old, wq, dw, 
-                                 k >>
+                                 gen, old_cv, lt_c, rc_c, so, out, ndl, old, 
+                                 wq, dw, k >>
 
 mw_10_ld(self) == /\ pc[self] = "mw_10_ld"
                   /\ IF waiting[W(self)] = 0
@@ -2340,8 +2350,8 @@ mw_10_ld(self) == /\ pc[self] = "mw_10_ld"
                                   sdl, scn, lt, rc, old_t, c, dl_, cn_, 
                                   old_mu_w, lt_, first, out_, rc_, hadw, ata, 
                                   so_, havel, tw, allr, omw, fca, sorw, all, 
-                                  old_c, tws, alr, rmq, dl, cn, old_cv, lt_c, 
-                                  rc_c, so, out, ndl, old, wq, dw, k >>
+                                  old_c, tws, alr, rmq, dl, cn, gen, old_cv, 
+                                  lt_c, rc_c, so, out, ndl, old, wq, dw, k >>
 
 mw_11_l(self) == /\ pc[self] = "mw_11_l"
                  /\ /\ lt' = [lt EXCEPT ![self] = lt_[self]]
@@ -2364,8 +2374,8 @@ mw_11_l(self) == /\ pc[self] = "mw_11_l"
                                  lt_mu_, ww, old_mu_, sdl, scn, c, dl_, cn_, 
                                  old_mu_w, lt_, first, out_, rc_, hadw, ata, 
                                  so_, havel, tw, allr, omw, fca, sorw, all, 
-                                 old_c, tws, alr, rmq, dl, cn, old_cv, lt_c, 
-                                 rc_c, so, out, ndl, old, wq, dw, k >>
+                                 old_c, tws, alr, rmq, dl, cn, gen, old_cv, 
+                                 lt_c, rc_c, so, out, ndl, old, wq, dw, k >>
 
 mw_11b_l(self) == /\ pc[self] = "mw_11b_l"
                   /\ havel' = [havel EXCEPT ![self] = (sres[self] = 1)]
@@ -2385,8 +2395,8 @@ mw_11b_l(self) == /\ pc[self] = "mw_11b_l"
                                   sdl, scn, lt, rc, old_t, c, dl_, cn_, 
                                   old_mu_w, lt_, first, rc_, hadw, ata, so_, 
                                   tw, allr, omw, fca, sorw, all, old_c, tws, 
-                                  alr, rmq, dl, cn, old_cv, lt_c, rc_c, so, 
-                                  out, ndl, old, wq, dw, k >>
+                                  alr, rmq, dl, cn, gen, old_cv, lt_c, rc_c, 
+                                  so, out, ndl, old, wq, dw, k >>
 
 mw_12_ld(self) == /\ pc[self] = "mw_12_ld"
                   /\ IF waiting[W(self)] # 0
@@ -2403,8 +2413,8 @@ mw_12_ld(self) == /\ pc[self] = "mw_12_ld"
                                   sdl, scn, lt, rc, old_t, c, dl_, cn_, 
                                   old_mu_w, lt_, first, out_, rc_, hadw, ata, 
                                   so_, havel, tw, allr, omw, fca, sorw, all, 
-                                  old_c, tws, alr, rmq, dl, cn, old_cv, lt_c, 
-                                  rc_c, so, out, ndl, old, wq, dw, k >>
+                                  old_c, tws, alr, rmq, dl, cn, gen, old_cv, 
+                                  lt_c, rc_c, so, out, ndl, old, wq, dw, k >>
 
 mw_12_d(self) == /\ pc[self] = "mw_12_d"
                  /\ pc' = [pc EXCEPT ![self] = "mw_8_ld"]
@@ -2419,8 +2429,8 @@ mw_12_d(self) == /\ pc[self] = "mw_12_d"
                                  old_t, c, dl_, cn_, old_mu_w, lt_, first, 
                                  out_, rc_, hadw, ata, so_, havel, tw, allr, 
                                  omw, fca, sorw, all, old_c, tws, alr, rmq, dl, 
-                                 cn, old_cv, lt_c, rc_c, so, out, ndl, old, wq, 
-                                 dw, k >>
+                                 cn, gen, old_cv, lt_c, rc_c, so, out, ndl, 
+                                 old, wq, dw, k >>
 
 mw_13_l(self) == /\ pc[self] = "mw_13_l"
                  /\ IF ~havel[self]
@@ -2455,8 +2465,8 @@ mw_13_l(self) == /\ pc[self] = "mw_13_l"
                                  old_t, c, dl_, cn_, old_mu_w, lt_, first, 
                                  out_, rc_, hadw, ata, so_, havel, tw, allr, 
                                  omw, fca, sorw, all, old_c, tws, alr, rmq, dl, 
-                                 cn, old_cv, lt_c, rc_c, so, out, ndl, old, wq, 
-                                 dw, k >>
+                                 cn, gen, old_cv, lt_c, rc_c, so, out, ndl, 
+                                 old, wq, dw, k >>
 
 mw_14_l(self) == /\ pc[self] = "mw_14_l"
                  /\ IF out_[self] = 0 /\ ~((c[self] = 0) \/ CondTrue(c[self], data))
@@ -2488,8 +2498,8 @@ mw_14_l(self) == /\ pc[self] = "mw_14_l"
                                  cor, rmq_, late, lt_m, old_m, lt_mu, old_mu, 
                                  lt_mu_, ww, old_mu_, sdl, scn, lt, rc, old_t, 
                                  tw, allr, omw, fca, sorw, all, old_c, tws, 
-                                 alr, rmq, dl, cn, old_cv, lt_c, rc_c, so, out, 
-                                 ndl, old, wq, dw, k >>
+                                 alr, rmq, dl, cn, gen, old_cv, lt_c, rc_c, so, 
+                                 out, ndl, old, wq, dw, k >>
 
 mu_wait(self) == mw_1_ld(self) \/ mw_2_st(self) \/ mw_3_ld(self)
                     \/ mw_4_ld(self) \/ mw_5_cas(self) \/ mw_4_d(self)
@@ -2512,7 +2522,7 @@ ww_0_l(self) == /\ pc[self] = "ww_0_l"
                                 old_mu, lt_mu_, ww, old_mu_, sdl, scn, lt, rc, 
                                 old_t, c, dl_, cn_, old_mu_w, lt_, first, out_, 
                                 rc_, hadw, ata, so_, havel, tw, allr, omw, fca, 
-                                sorw, all, old_c, tws, alr, rmq, dl, cn, 
+                                sorw, all, old_c, tws, alr, rmq, dl, cn, gen, 
                                 old_cv, lt_c, rc_c, so, out, ndl, old, wq, dw, 
                                 k >>
 
@@ -2532,7 +2542,7 @@ ww_1_ld(self) == /\ pc[self] = "ww_1_ld"
                                  old_mu, lt_mu_, ww, old_mu_, sdl, scn, lt, rc, 
                                  old_t, c, dl_, cn_, old_mu_w, lt_, first, 
                                  out_, rc_, hadw, ata, so_, havel, tw, allr, 
-                                 sorw, all, old_c, tws, alr, rmq, dl, cn, 
+                                 sorw, all, old_c, tws, alr, rmq, dl, cn, gen, 
                                  old_cv, lt_c, rc_c, so, out, ndl, old, wq, dw, 
                                  k >>
 
@@ -2557,8 +2567,8 @@ ww_2_cas(self) == /\ pc[self] = "ww_2_cas"
                                   lt_mu_, ww, old_mu_, sdl, scn, lt, rc, old_t, 
                                   c, dl_, cn_, old_mu_w, lt_, first, out_, rc_, 
                                   hadw, ata, so_, havel, allr, omw, fca, all, 
-                                  old_c, tws, alr, rmq, dl, cn, old_cv, lt_c, 
-                                  rc_c, so, out, ndl, old, wq, dw, k >>
+                                  old_c, tws, alr, rmq, dl, cn, gen, old_cv, 
+                                  lt_c, rc_c, so, out, ndl, old, wq, dw, k >>
 
 ww_3_ld(self) == /\ pc[self] = "ww_3_ld"
                  /\ omw' = [omw EXCEPT ![self] = word]
@@ -2574,8 +2584,8 @@ ww_3_ld(self) == /\ pc[self] = "ww_3_ld"
                                  old_t, c, dl_, cn_, old_mu_w, lt_, first, 
                                  out_, rc_, hadw, ata, so_, havel, tw, allr, 
                                  fca, sorw, all, old_c, tws, alr, rmq, dl, cn, 
-                                 old_cv, lt_c, rc_c, so, out, ndl, old, wq, dw, 
-                                 k >>
+                                 gen, old_cv, lt_c, rc_c, so, out, ndl, old, 
+                                 wq, dw, k >>
 
 ww_4_cas(self) == /\ pc[self] = "ww_4_cas"
                   /\ IF word = omw[self]
@@ -2594,8 +2604,8 @@ ww_4_cas(self) == /\ pc[self] = "ww_4_cas"
                                   sdl, scn, lt, rc, old_t, c, dl_, cn_, 
                                   old_mu_w, lt_, first, out_, rc_, hadw, ata, 
                                   so_, havel, tw, allr, omw, fca, sorw, all, 
-                                  old_c, tws, alr, rmq, dl, cn, old_cv, lt_c, 
-                                  rc_c, so, out, ndl, old, wq, dw, k >>
+                                  old_c, tws, alr, rmq, dl, cn, gen, old_cv, 
+                                  lt_c, rc_c, so, out, ndl, old, wq, dw, k >>
 
 ww_4b_l(self) == /\ pc[self] = "ww_4b_l"
                  /\ IF tw[self] = <<>>
@@ -2618,8 +2628,8 @@ ww_4b_l(self) == /\ pc[self] = "ww_4b_l"
                                  lt_mu_, ww, old_mu_, sdl, scn, lt, rc, old_t, 
                                  c, dl_, cn_, old_mu_w, lt_, first, out_, rc_, 
                                  hadw, ata, so_, havel, all, old_c, tws, alr, 
-                                 rmq, dl, cn, old_cv, lt_c, rc_c, so, out, ndl, 
-                                 old, wq, dw, k >>
+                                 rmq, dl, cn, gen, old_cv, lt_c, rc_c, so, out, 
+                                 ndl, old, wq, dw, k >>
 
 ww_5_st(self) == /\ pc[self] = "ww_5_st"
                  /\ IF IsMuCv(Head(tw[self]))
@@ -2638,7 +2648,7 @@ ww_5_st(self) == /\ pc[self] = "ww_5_st"
                                  lt_mu_, ww, old_mu_, sdl, scn, lt, rc, old_t, 
                                  c, dl_, cn_, old_mu_w, lt_, first, out_, rc_, 
                                  hadw, ata, so_, havel, tw, allr, omw, fca, 
-                                 sorw, all, old_c, tws, alr, rmq, dl, cn, 
+                                 sorw, all, old_c, tws, alr, rmq, dl, cn, gen, 
                                  old_cv, lt_c, rc_c, so, out, ndl, old, wq, dw, 
                                  k >>
 
@@ -2665,8 +2675,8 @@ ww_6_v(self) == /\ pc[self] = "ww_6_v"
                                 lt_mu_, ww, old_mu_, sdl, scn, lt, rc, old_t, 
                                 c, dl_, cn_, old_mu_w, lt_, first, out_, rc_, 
                                 hadw, ata, so_, havel, all, old_c, tws, alr, 
-                                rmq, dl, cn, old_cv, lt_c, rc_c, so, out, ndl, 
-                                old, wq, dw, k >>
+                                rmq, dl, cn, gen, old_cv, lt_c, rc_c, so, out, 
+                                ndl, old, wq, dw, k >>
 
 wake_waiters(self) == ww_0_l(self) \/ ww_1_ld(self) \/ ww_2_cas(self)
                          \/ ww_3_ld(self) \/ ww_4_cas(self)
@@ -2693,8 +2703,8 @@ cs_1_ld(self) == /\ pc[self] = "cs_1_ld"
                                  lt_mu_, ww, old_mu_, sdl, scn, lt, rc, old_t, 
                                  c, dl_, cn_, old_mu_w, lt_, first, out_, rc_, 
                                  hadw, ata, so_, havel, tw, allr, omw, fca, 
-                                 sorw, dl, cn, old_cv, lt_c, rc_c, so, out, 
-                                 ndl, old, wq, dw, k >>
+                                 sorw, dl, cn, gen, old_cv, lt_c, rc_c, so, 
+                                 out, ndl, old, wq, dw, k >>
 
 cs_2_ld(self) == /\ pc[self] = "cs_2_ld"
                  /\ old_c' = [old_c EXCEPT ![self] = cvword]
@@ -2712,8 +2722,8 @@ cs_2_ld(self) == /\ pc[self] = "cs_2_ld"
                                  old_t, c, dl_, cn_, old_mu_w, lt_, first, 
                                  out_, rc_, hadw, ata, so_, havel, tw, allr, 
                                  omw, fca, sorw, all, tws, alr, rmq, dl, cn, 
-                                 old_cv, lt_c, rc_c, so, out, ndl, old, wq, dw, 
-                                 k >>
+                                 gen, old_cv, lt_c, rc_c, so, out, ndl, old, 
+                                 wq, dw, k >>
 
 cs_3_cas(self) == /\ pc[self] = "cs_3_cas"
                   /\ IF cvword = old_c[self]
@@ -2742,8 +2752,8 @@ cs_3_cas(self) == /\ pc[self] = "cs_3_cas"
                                   lt_mu_, ww, old_mu_, sdl, scn, lt, rc, old_t, 
                                   c, dl_, cn_, old_mu_w, lt_, first, out_, rc_, 
                                   hadw, ata, so_, havel, tw, allr, omw, fca, 
-                                  sorw, all, old_c, rmq, dl, cn, old_cv, lt_c, 
-                                  rc_c, so, out, ndl, old, wq, dw, k >>
+                                  sorw, all, old_c, rmq, dl, cn, gen, old_cv, 
+                                  lt_c, rc_c, so, out, ndl, old, wq, dw, k >>
 
 cs_3b_l(self) == /\ pc[self] = "cs_3b_l"
                  /\ rmq' = [rmq EXCEPT ![self] = IF CvFix THEN tws[self] ELSE SelectSeq(tws[self], IsMuCv)]
@@ -2760,8 +2770,8 @@ cs_3b_l(self) == /\ pc[self] = "cs_3b_l"
                                  lt_mu_, ww, old_mu_, sdl, scn, lt, rc, old_t, 
                                  c, dl_, cn_, old_mu_w, lt_, first, out_, rc_, 
                                  hadw, ata, so_, havel, tw, allr, omw, fca, 
-                                 sorw, all, old_c, alr, dl, cn, old_cv, lt_c, 
-                                 rc_c, so, out, ndl, old, wq, dw, k >>
+                                 sorw, all, old_c, alr, dl, cn, gen, old_cv, 
+                                 lt_c, rc_c, so, out, ndl, old, wq, dw, k >>
 
 cs_2_d(self) == /\ pc[self] = "cs_2_d"
                 /\ pc' = [pc EXCEPT ![self] = "cs_2_ld"]
@@ -2775,7 +2785,7 @@ cs_2_d(self) == /\ pc[self] = "cs_2_d"
                                 old_mu, lt_mu_, ww, old_mu_, sdl, scn, lt, rc, 
                                 old_t, c, dl_, cn_, old_mu_w, lt_, first, out_, 
                                 rc_, hadw, ata, so_, havel, tw, allr, omw, fca, 
-                                sorw, all, old_c, tws, alr, rmq, dl, cn, 
+                                sorw, all, old_c, tws, alr, rmq, dl, cn, gen, 
                                 old_cv, lt_c, rc_c, so, out, ndl, old, wq, dw, 
                                 k >>
 
@@ -2796,8 +2806,8 @@ cs_rmq_l(self) == /\ pc[self] = "cs_rmq_l"
                                   sdl, scn, lt, rc, old_t, c, dl_, cn_, 
                                   old_mu_w, lt_, first, out_, rc_, hadw, ata, 
                                   so_, havel, tw, allr, omw, fca, sorw, all, 
-                                  old_c, tws, alr, rmq, dl, cn, old_cv, lt_c, 
-                                  rc_c, so, out, ndl, old, wq, dw, k >>
+                                  old_c, tws, alr, rmq, dl, cn, gen, old_cv, 
+                                  lt_c, rc_c, so, out, ndl, old, wq, dw, k >>
 
 cs_rm_ld(self) == /\ pc[self] = "cs_rm_ld"
                   /\ TRUE
@@ -2813,8 +2823,8 @@ cs_rm_ld(self) == /\ pc[self] = "cs_rm_ld"
                                   sdl, scn, lt, rc, old_t, c, dl_, cn_, 
                                   old_mu_w, lt_, first, out_, rc_, hadw, ata, 
                                   so_, havel, tw, allr, omw, fca, sorw, all, 
-                                  old_c, tws, alr, rmq, dl, cn, old_cv, lt_c, 
-                                  rc_c, so, out, ndl, old, wq, dw, k >>
+                                  old_c, tws, alr, rmq, dl, cn, gen, old_cv, 
+                                  lt_c, rc_c, so, out, ndl, old, wq, dw, k >>
 
 cs_rm_cas(self) == /\ pc[self] = "cs_rm_cas"
                    /\ rmc' = [rmc EXCEPT ![Head(rmq[self])] = rmc[Head(rmq[self])] + 1]
@@ -2831,8 +2841,8 @@ cs_rm_cas(self) == /\ pc[self] = "cs_rm_cas"
                                    sdl, scn, lt, rc, old_t, c, dl_, cn_, 
                                    old_mu_w, lt_, first, out_, rc_, hadw, ata, 
                                    so_, havel, tw, allr, omw, fca, sorw, all, 
-                                   old_c, tws, alr, dl, cn, old_cv, lt_c, rc_c, 
-                                   so, out, ndl, old, wq, dw, k >>
+                                   old_c, tws, alr, dl, cn, gen, old_cv, lt_c, 
+                                   rc_c, so, out, ndl, old, wq, dw, k >>
 
 cs_f_st(self) == /\ pc[self] = "cs_f_st"
                  /\ nww' = [nww EXCEPT ![-Head(rmq[self])] = 0]
@@ -2848,8 +2858,8 @@ cs_f_st(self) == /\ pc[self] = "cs_f_st"
                                  old_t, c, dl_, cn_, old_mu_w, lt_, first, 
                                  out_, rc_, hadw, ata, so_, havel, tw, allr, 
                                  omw, fca, sorw, all, old_c, tws, alr, rmq, dl, 
-                                 cn, old_cv, lt_c, rc_c, so, out, ndl, old, wq, 
-                                 dw, k >>
+                                 cn, gen, old_cv, lt_c, rc_c, so, out, ndl, 
+                                 old, wq, dw, k >>
 
 cs_f_v(self) == /\ pc[self] = "cs_f_v"
                 /\ sem' = [sem EXCEPT ![SemOf(Head(rmq[self]))] = SetV(sem[SemOf(Head(rmq[self]))])]
@@ -2865,8 +2875,9 @@ cs_f_v(self) == /\ pc[self] = "cs_f_v"
                                 old_mu, lt_mu_, ww, old_mu_, sdl, scn, lt, rc, 
                                 old_t, c, dl_, cn_, old_mu_w, lt_, first, out_, 
                                 rc_, hadw, ata, so_, havel, tw, allr, omw, fca, 
-                                sorw, all, old_c, tws, alr, dl, cn, old_cv, 
-                                lt_c, rc_c, so, out, ndl, old, wq, dw, k >>
+                                sorw, all, old_c, tws, alr, dl, cn, gen, 
+                                old_cv, lt_c, rc_c, so, out, ndl, old, wq, dw, 
+                                k >>
 
 cs_4_st(self) == /\ pc[self] = "cs_4_st"
                  /\ cvword' = IF all[self] THEN 0 ELSE (IF cvq = <<>> THEN Clr(old_c[self], CVNE) ELSE old_c[self])
@@ -2907,8 +2918,8 @@ cs_4_st(self) == /\ pc[self] = "cs_4_st"
                                  cor, rmq_, late, lt_m, old_m, lt_mu, old_mu, 
                                  lt_mu_, ww, old_mu_, sdl, scn, lt, rc, old_t, 
                                  c, dl_, cn_, old_mu_w, lt_, first, out_, rc_, 
-                                 hadw, ata, so_, havel, dl, cn, old_cv, lt_c, 
-                                 rc_c, so, out, ndl, old, wq, dw, k >>
+                                 hadw, ata, so_, havel, dl, cn, gen, old_cv, 
+                                 lt_c, rc_c, so, out, ndl, old, wq, dw, k >>
 
 cv_wake(self) == cs_1_ld(self) \/ cs_2_ld(self) \/ cs_3_cas(self)
                     \/ cs_3b_l(self) \/ cs_2_d(self) \/ cs_rmq_l(self)
@@ -2919,20 +2930,25 @@ cw_1_st(self) == /\ pc[self] = "cw_1_st"
                  /\ waiting' = [waiting EXCEPT ![W(self)] = 1]
                  /\ wc' = [wc EXCEPT ![W(self)] = 0]
                  /\ picked' = [picked EXCEPT ![self] = FALSE]
-                 /\ pc' = [pc EXCEPT ![self] = "cw_2_ld"]
-                 /\ UNCHANGED << word, queue, cvword, cvq, rmc, cvmu, wl, sc, 
-                                 nww, nwsem, sem, data, now, note, nreg, held, 
-                                 ret, sres, sleeps, inlock, ip, mw, pool, 
-                                 nalloc, muFreed, refs, nwalive, taint3, stack, 
-                                 lt_l, clear, old_, zlo, zhi, wcnt, lw, lt_u, 
-                                 old_u, tc, nwl, wtrs, wake, wty, sor, cor, 
-                                 rmq_, late, lt_m, old_m, lt_mu, old_mu, 
-                                 lt_mu_, ww, old_mu_, sdl, scn, lt, rc, old_t, 
-                                 c, dl_, cn_, old_mu_w, lt_, first, out_, rc_, 
-                                 hadw, ata, so_, havel, tw, allr, omw, fca, 
-                                 sorw, all, old_c, tws, alr, rmq, dl, cn, 
-                                 old_cv, lt_c, rc_c, so, out, ndl, old, wq, dw, 
-                                 k >>
+                 /\ IF gen[self]
+                       THEN /\ cvmu' = [cvmu EXCEPT ![W(self)] = FALSE]
+                            /\ wl' = [wl EXCEPT ![W(self)] = 0]
+                            /\ lt_c' = [lt_c EXCEPT ![self] = 1]
+                            /\ pc' = [pc EXCEPT ![self] = "cw_3_ld"]
+                       ELSE /\ pc' = [pc EXCEPT ![self] = "cw_2_ld"]
+                            /\ UNCHANGED << cvmu, wl, lt_c >>
+                 /\ UNCHANGED << word, queue, cvword, cvq, rmc, sc, nww, nwsem, 
+                                 sem, data, now, note, nreg, held, ret, sres, 
+                                 sleeps, inlock, ip, mw, pool, nalloc, muFreed, 
+                                 refs, nwalive, taint3, stack, lt_l, clear, 
+                                 old_, zlo, zhi, wcnt, lw, lt_u, old_u, tc, 
+                                 nwl, wtrs, wake, wty, sor, cor, rmq_, late, 
+                                 lt_m, old_m, lt_mu, old_mu, lt_mu_, ww, 
+                                 old_mu_, sdl, scn, lt, rc, old_t, c, dl_, cn_, 
+                                 old_mu_w, lt_, first, out_, rc_, hadw, ata, 
+                                 so_, havel, tw, allr, omw, fca, sorw, all, 
+                                 old_c, tws, alr, rmq, dl, cn, gen, old_cv, 
+                                 rc_c, so, out, ndl, old, wq, dw, k >>
 
 cw_2_ld(self) == /\ pc[self] = "cw_2_ld"
                  /\ lt_c' = [lt_c EXCEPT ![self] = IF (word & WLOCK) # 0 THEN 1 ELSE 2]
@@ -2950,8 +2966,8 @@ cw_2_ld(self) == /\ pc[self] = "cw_2_ld"
                                  old_t, c, dl_, cn_, old_mu_w, lt_, first, 
                                  out_, rc_, hadw, ata, so_, havel, tw, allr, 
                                  omw, fca, sorw, all, old_c, tws, alr, rmq, dl, 
-                                 cn, old_cv, rc_c, so, out, ndl, old, wq, dw, 
-                                 k >>
+                                 cn, gen, old_cv, rc_c, so, out, ndl, old, wq, 
+                                 dw, k >>
 
 cw_3_ld(self) == /\ pc[self] = "cw_3_ld"
                  /\ old_cv' = [old_cv EXCEPT ![self] = cvword]
@@ -2969,7 +2985,8 @@ cw_3_ld(self) == /\ pc[self] = "cw_3_ld"
                                  old_t, c, dl_, cn_, old_mu_w, lt_, first, 
                                  out_, rc_, hadw, ata, so_, havel, tw, allr, 
                                  omw, fca, sorw, all, old_c, tws, alr, rmq, dl, 
-                                 cn, lt_c, rc_c, so, out, ndl, old, wq, dw, k >>
+                                 cn, gen, lt_c, rc_c, so, out, ndl, old, wq, 
+                                 dw, k >>
 
 cw_4_cas(self) == /\ pc[self] = "cw_4_cas"
                   /\ IF cvword = old_cv[self]
@@ -2988,7 +3005,7 @@ cw_4_cas(self) == /\ pc[self] = "cw_4_cas"
                                   lt_mu_, ww, old_mu_, sdl, scn, lt, rc, old_t, 
                                   c, dl_, cn_, old_mu_w, lt_, first, out_, rc_, 
                                   hadw, ata, so_, havel, tw, allr, omw, fca, 
-                                  sorw, all, old_c, tws, alr, rmq, dl, cn, 
+                                  sorw, all, old_c, tws, alr, rmq, dl, cn, gen, 
                                   old_cv, lt_c, rc_c, so, out, ndl, old, wq, 
                                   dw, k >>
 
@@ -3004,7 +3021,7 @@ cw_3_d(self) == /\ pc[self] = "cw_3_d"
                                 old_mu, lt_mu_, ww, old_mu_, sdl, scn, lt, rc, 
                                 old_t, c, dl_, cn_, old_mu_w, lt_, first, out_, 
                                 rc_, hadw, ata, so_, havel, tw, allr, omw, fca, 
-                                sorw, all, old_c, tws, alr, rmq, dl, cn, 
+                                sorw, all, old_c, tws, alr, rmq, dl, cn, gen, 
                                 old_cv, lt_c, rc_c, so, out, ndl, old, wq, dw, 
                                 k >>
 
@@ -3022,8 +3039,8 @@ cw_5_ld(self) == /\ pc[self] = "cw_5_ld"
                                  old_t, c, dl_, cn_, old_mu_w, lt_, first, 
                                  out_, rc_, hadw, ata, so_, havel, tw, allr, 
                                  omw, fca, sorw, all, old_c, tws, alr, rmq, dl, 
-                                 cn, old_cv, lt_c, so, out, ndl, old, wq, dw, 
-                                 k >>
+                                 cn, gen, old_cv, lt_c, so, out, ndl, old, wq, 
+                                 dw, k >>
 
 cw_6_st(self) == /\ pc[self] = "cw_6_st"
                  /\ cvword' = old_cv[self] | CVNE
@@ -3050,8 +3067,8 @@ cw_6_st(self) == /\ pc[self] = "cw_6_st"
                                  scn, lt, rc, old_t, c, dl_, cn_, old_mu_w, 
                                  lt_, first, out_, rc_, hadw, ata, so_, havel, 
                                  tw, allr, omw, fca, sorw, all, old_c, tws, 
-                                 alr, rmq, dl, cn, old_cv, lt_c, rc_c, ndl, 
-                                 old, wq, dw, k >>
+                                 alr, rmq, dl, cn, gen, old_cv, lt_c, rc_c, 
+                                 ndl, old, wq, dw, k >>
 
 cw_7_ld(self) == /\ pc[self] = "cw_7_ld"
                  /\ IF waiting[W(self)] = 0
@@ -3078,8 +3095,9 @@ cw_7_ld(self) == /\ pc[self] = "cw_7_ld"
                                  lt_mu_, ww, old_mu_, lt, rc, old_t, c, dl_, 
                                  cn_, old_mu_w, lt_, first, out_, rc_, hadw, 
                                  ata, so_, havel, tw, allr, omw, fca, sorw, 
-                                 all, old_c, tws, alr, rmq, dl, cn, old_cv, 
-                                 lt_c, rc_c, so, out, ndl, old, wq, dw, k >>
+                                 all, old_c, tws, alr, rmq, dl, cn, gen, 
+                                 old_cv, lt_c, rc_c, so, out, ndl, old, wq, dw, 
+                                 k >>
 
 cw_8b_l(self) == /\ pc[self] = "cw_8b_l"
                  /\ so' = [so EXCEPT ![self] = sres[self]]
@@ -3097,8 +3115,8 @@ cw_8b_l(self) == /\ pc[self] = "cw_8b_l"
                                  old_t, c, dl_, cn_, old_mu_w, lt_, first, 
                                  out_, rc_, hadw, ata, so_, havel, tw, allr, 
                                  omw, fca, sorw, all, old_c, tws, alr, rmq, dl, 
-                                 cn, old_cv, lt_c, rc_c, out, ndl, old, wq, dw, 
-                                 k >>
+                                 cn, gen, old_cv, lt_c, rc_c, out, ndl, old, 
+                                 wq, dw, k >>
 
 cw_9_ld(self) == /\ pc[self] = "cw_9_ld"
                  /\ IF waiting[W(self)] = 0
@@ -3115,8 +3133,8 @@ cw_9_ld(self) == /\ pc[self] = "cw_9_ld"
                                  old_t, c, dl_, cn_, old_mu_w, lt_, first, 
                                  out_, rc_, hadw, ata, so_, havel, tw, allr, 
                                  omw, fca, sorw, all, old_c, tws, alr, rmq, dl, 
-                                 cn, old_cv, lt_c, rc_c, so, out, ndl, old, wq, 
-                                 dw, k >>
+                                 cn, gen, old_cv, lt_c, rc_c, so, out, ndl, 
+                                 old, wq, dw, k >>
 
 cw_10_ld(self) == /\ pc[self] = "cw_10_ld"
                   /\ old_cv' = [old_cv EXCEPT ![self] = cvword]
@@ -3134,8 +3152,8 @@ cw_10_ld(self) == /\ pc[self] = "cw_10_ld"
                                   sdl, scn, lt, rc, old_t, c, dl_, cn_, 
                                   old_mu_w, lt_, first, out_, rc_, hadw, ata, 
                                   so_, havel, tw, allr, omw, fca, sorw, all, 
-                                  old_c, tws, alr, rmq, dl, cn, lt_c, rc_c, so, 
-                                  out, ndl, old, wq, dw, k >>
+                                  old_c, tws, alr, rmq, dl, cn, gen, lt_c, 
+                                  rc_c, so, out, ndl, old, wq, dw, k >>
 
 cw_11_cas(self) == /\ pc[self] = "cw_11_cas"
                    /\ IF cvword = old_cv[self]
@@ -3154,8 +3172,8 @@ cw_11_cas(self) == /\ pc[self] = "cw_11_cas"
                                    sdl, scn, lt, rc, old_t, c, dl_, cn_, 
                                    old_mu_w, lt_, first, out_, rc_, hadw, ata, 
                                    so_, havel, tw, allr, omw, fca, sorw, all, 
-                                   old_c, tws, alr, rmq, dl, cn, old_cv, lt_c, 
-                                   rc_c, so, out, ndl, old, wq, dw, k >>
+                                   old_c, tws, alr, rmq, dl, cn, gen, old_cv, 
+                                   lt_c, rc_c, so, out, ndl, old, wq, dw, k >>
 
 cw_10_d(self) == /\ pc[self] = "cw_10_d"
                  /\ pc' = [pc EXCEPT ![self] = "cw_10_ld"]
@@ -3170,8 +3188,8 @@ cw_10_d(self) == /\ pc[self] = "cw_10_d"
                                  old_t, c, dl_, cn_, old_mu_w, lt_, first, 
                                  out_, rc_, hadw, ata, so_, havel, tw, allr, 
                                  omw, fca, sorw, all, old_c, tws, alr, rmq, dl, 
-                                 cn, old_cv, lt_c, rc_c, so, out, ndl, old, wq, 
-                                 dw, k >>
+                                 cn, gen, old_cv, lt_c, rc_c, so, out, ndl, 
+                                 old, wq, dw, k >>
 
 cw_12_ld(self) == /\ pc[self] = "cw_12_ld"
                   /\ IF waiting[W(self)] = 0
@@ -3188,8 +3206,8 @@ cw_12_ld(self) == /\ pc[self] = "cw_12_ld"
                                   sdl, scn, lt, rc, old_t, c, dl_, cn_, 
                                   old_mu_w, lt_, first, out_, rc_, hadw, ata, 
                                   so_, havel, tw, allr, omw, fca, sorw, all, 
-                                  old_c, tws, alr, rmq, dl, cn, old_cv, lt_c, 
-                                  rc_c, so, out, ndl, old, wq, dw, k >>
+                                  old_c, tws, alr, rmq, dl, cn, gen, old_cv, 
+                                  lt_c, rc_c, so, out, ndl, old, wq, dw, k >>
 
 cw_13_ld(self) == /\ pc[self] = "cw_13_ld"
                   /\ IF rc_c[self] # rmc[W(self)]
@@ -3209,8 +3227,8 @@ cw_13_ld(self) == /\ pc[self] = "cw_13_ld"
                                   sdl, scn, lt, rc, old_t, c, dl_, cn_, 
                                   old_mu_w, lt_, first, out_, rc_, hadw, ata, 
                                   so_, havel, tw, allr, omw, fca, sorw, all, 
-                                  old_c, tws, alr, rmq, dl, cn, old_cv, lt_c, 
-                                  rc_c, so, ndl, old, wq, dw, k >>
+                                  old_c, tws, alr, rmq, dl, cn, gen, old_cv, 
+                                  lt_c, rc_c, so, ndl, old, wq, dw, k >>
 
 cw_14_ld(self) == /\ pc[self] = "cw_14_ld"
                   /\ TRUE
@@ -3226,8 +3244,8 @@ cw_14_ld(self) == /\ pc[self] = "cw_14_ld"
                                   sdl, scn, lt, rc, old_t, c, dl_, cn_, 
                                   old_mu_w, lt_, first, out_, rc_, hadw, ata, 
                                   so_, havel, tw, allr, omw, fca, sorw, all, 
-                                  old_c, tws, alr, rmq, dl, cn, old_cv, lt_c, 
-                                  rc_c, so, out, ndl, old, wq, dw, k >>
+                                  old_c, tws, alr, rmq, dl, cn, gen, old_cv, 
+                                  lt_c, rc_c, so, out, ndl, old, wq, dw, k >>
 
 cw_14_cas(self) == /\ pc[self] = "cw_14_cas"
                    /\ rmc' = [rmc EXCEPT ![W(self)] = rmc[W(self)] + 1]
@@ -3244,8 +3262,8 @@ cw_14_cas(self) == /\ pc[self] = "cw_14_cas"
                                    sdl, scn, lt, rc, old_t, c, dl_, cn_, 
                                    old_mu_w, lt_, first, out_, rc_, hadw, ata, 
                                    so_, havel, tw, allr, omw, fca, sorw, all, 
-                                   old_c, tws, alr, rmq, dl, cn, lt_c, rc_c, 
-                                   so, out, ndl, old, wq, dw, k >>
+                                   old_c, tws, alr, rmq, dl, cn, gen, lt_c, 
+                                   rc_c, so, out, ndl, old, wq, dw, k >>
 
 cw_14_st(self) == /\ pc[self] = "cw_14_st"
                   /\ waiting' = [waiting EXCEPT ![W(self)] = 0]
@@ -3261,8 +3279,8 @@ cw_14_st(self) == /\ pc[self] = "cw_14_st"
                                   lt, rc, old_t, c, dl_, cn_, old_mu_w, lt_, 
                                   first, out_, rc_, hadw, ata, so_, havel, tw, 
                                   allr, omw, fca, sorw, all, old_c, tws, alr, 
-                                  rmq, dl, cn, old_cv, lt_c, rc_c, so, out, 
-                                  ndl, old, wq, dw, k >>
+                                  rmq, dl, cn, gen, old_cv, lt_c, rc_c, so, 
+                                  out, ndl, old, wq, dw, k >>
 
 cw_15_st(self) == /\ pc[self] = "cw_15_st"
                   /\ cvword' = old_cv[self]
@@ -3278,8 +3296,8 @@ cw_15_st(self) == /\ pc[self] = "cw_15_st"
                                   lt, rc, old_t, c, dl_, cn_, old_mu_w, lt_, 
                                   first, out_, rc_, hadw, ata, so_, havel, tw, 
                                   allr, omw, fca, sorw, all, old_c, tws, alr, 
-                                  rmq, dl, cn, old_cv, lt_c, rc_c, so, out, 
-                                  ndl, old, wq, dw, k >>
+                                  rmq, dl, cn, gen, old_cv, lt_c, rc_c, so, 
+                                  out, ndl, old, wq, dw, k >>
 
 cw_16_ld(self) == /\ pc[self] = "cw_16_ld"
                   /\ IF waiting[W(self)] # 0
@@ -3296,8 +3314,8 @@ cw_16_ld(self) == /\ pc[self] = "cw_16_ld"
                                   sdl, scn, lt, rc, old_t, c, dl_, cn_, 
                                   old_mu_w, lt_, first, out_, rc_, hadw, ata, 
                                   so_, havel, tw, allr, omw, fca, sorw, all, 
-                                  old_c, tws, alr, rmq, dl, cn, old_cv, lt_c, 
-                                  rc_c, so, out, ndl, old, wq, dw, k >>
+                                  old_c, tws, alr, rmq, dl, cn, gen, old_cv, 
+                                  lt_c, rc_c, so, out, ndl, old, wq, dw, k >>
 
 cw_16_d(self) == /\ pc[self] = "cw_16_d"
                  /\ pc' = [pc EXCEPT ![self] = "cw_7_ld"]
@@ -3312,8 +3330,8 @@ cw_16_d(self) == /\ pc[self] = "cw_16_d"
                                  old_t, c, dl_, cn_, old_mu_w, lt_, first, 
                                  out_, rc_, hadw, ata, so_, havel, tw, allr, 
                                  omw, fca, sorw, all, old_c, tws, alr, rmq, dl, 
-                                 cn, old_cv, lt_c, rc_c, so, out, ndl, old, wq, 
-                                 dw, k >>
+                                 cn, gen, old_cv, lt_c, rc_c, so, out, ndl, 
+                                 old, wq, dw, k >>
 
 cw_17_l(self) == /\ pc[self] = "cw_17_l"
                  /\ IF ~cvmu[W(self)]
@@ -3355,8 +3373,9 @@ cw_17_l(self) == /\ pc[self] = "cw_17_l"
                                  ww, old_mu_, sdl, scn, lt, rc, old_t, c, dl_, 
                                  cn_, old_mu_w, lt_, first, out_, rc_, hadw, 
                                  ata, so_, havel, tw, allr, omw, fca, sorw, 
-                                 all, old_c, tws, alr, rmq, dl, cn, old_cv, 
-                                 lt_c, rc_c, so, out, ndl, old, wq, dw, k >>
+                                 all, old_c, tws, alr, rmq, dl, cn, gen, 
+                                 old_cv, lt_c, rc_c, so, out, ndl, old, wq, dw, 
+                                 k >>
 
 cw_18_l(self) == /\ pc[self] = "cw_18_l"
                  /\ ret' = [ret EXCEPT ![self] = out[self]]
@@ -3368,6 +3387,7 @@ cw_18_l(self) == /\ pc[self] = "cw_18_l"
                  /\ out' = [out EXCEPT ![self] = Head(stack[self]).out]
                  /\ dl' = [dl EXCEPT ![self] = Head(stack[self]).dl]
                  /\ cn' = [cn EXCEPT ![self] = Head(stack[self]).cn]
+                 /\ gen' = [gen EXCEPT ![self] = Head(stack[self]).gen]
                  /\ stack' = [stack EXCEPT ![self] = Tail(stack[self])]
                  /\ UNCHANGED << word, queue, cvword, cvq, waiting, rmc, cvmu, 
                                  wl, wc, sc, nww, nwsem, sem, data, now, note, 
@@ -3407,8 +3427,8 @@ wn_1_st(self) == /\ pc[self] = "wn_1_st"
                                  old_mu_, sdl, scn, lt, rc, old_t, c, dl_, cn_, 
                                  old_mu_w, lt_, first, out_, rc_, hadw, ata, 
                                  so_, havel, tw, allr, omw, fca, sorw, all, 
-                                 old_c, tws, alr, rmq, dl, cn, old_cv, lt_c, 
-                                 rc_c, so, out, ndl, old, wq, dw, k >>
+                                 old_c, tws, alr, rmq, dl, cn, gen, old_cv, 
+                                 lt_c, rc_c, so, out, ndl, old, wq, dw, k >>
 
 wn_2_ld(self) == /\ pc[self] = "wn_2_ld"
                  /\ old' = [old EXCEPT ![self] = cvword]
@@ -3426,8 +3446,8 @@ wn_2_ld(self) == /\ pc[self] = "wn_2_ld"
                                  old_t, c, dl_, cn_, old_mu_w, lt_, first, 
                                  out_, rc_, hadw, ata, so_, havel, tw, allr, 
                                  omw, fca, sorw, all, old_c, tws, alr, rmq, dl, 
-                                 cn, old_cv, lt_c, rc_c, so, out, ndl, wq, dw, 
-                                 k >>
+                                 cn, gen, old_cv, lt_c, rc_c, so, out, ndl, wq, 
+                                 dw, k >>
 
 wn_3_cas(self) == /\ pc[self] = "wn_3_cas"
                   /\ IF cvword = old[self]
@@ -3446,7 +3466,7 @@ wn_3_cas(self) == /\ pc[self] = "wn_3_cas"
                                   lt_mu_, ww, old_mu_, sdl, scn, lt, rc, old_t, 
                                   c, dl_, cn_, old_mu_w, lt_, first, out_, rc_, 
                                   hadw, ata, so_, havel, tw, allr, omw, fca, 
-                                  sorw, all, old_c, tws, alr, rmq, dl, cn, 
+                                  sorw, all, old_c, tws, alr, rmq, dl, cn, gen, 
                                   old_cv, lt_c, rc_c, so, out, ndl, old, wq, 
                                   dw, k >>
 
@@ -3462,7 +3482,7 @@ wn_2_d(self) == /\ pc[self] = "wn_2_d"
                                 old_mu, lt_mu_, ww, old_mu_, sdl, scn, lt, rc, 
                                 old_t, c, dl_, cn_, old_mu_w, lt_, first, out_, 
                                 rc_, hadw, ata, so_, havel, tw, allr, omw, fca, 
-                                sorw, all, old_c, tws, alr, rmq, dl, cn, 
+                                sorw, all, old_c, tws, alr, rmq, dl, cn, gen, 
                                 old_cv, lt_c, rc_c, so, out, ndl, old, wq, dw, 
                                 k >>
 
@@ -3480,8 +3500,8 @@ wn_4_st(self) == /\ pc[self] = "wn_4_st"
                                  old_t, c, dl_, cn_, old_mu_w, lt_, first, 
                                  out_, rc_, hadw, ata, so_, havel, tw, allr, 
                                  omw, fca, sorw, all, old_c, tws, alr, rmq, dl, 
-                                 cn, old_cv, lt_c, rc_c, so, out, ndl, old, wq, 
-                                 dw, k >>
+                                 cn, gen, old_cv, lt_c, rc_c, so, out, ndl, 
+                                 old, wq, dw, k >>
 
 wn_5_st(self) == /\ pc[self] = "wn_5_st"
                  /\ cvword' = old[self] | CVNE
@@ -3506,8 +3526,8 @@ wn_5_st(self) == /\ pc[self] = "wn_5_st"
                                  scn, lt, rc, old_t, c, dl_, cn_, old_mu_w, 
                                  lt_, first, out_, rc_, hadw, ata, so_, havel, 
                                  tw, allr, omw, fca, sorw, all, old_c, tws, 
-                                 alr, rmq, dl, cn, old_cv, lt_c, rc_c, so, out, 
-                                 ndl, old, wq, dw, k >>
+                                 alr, rmq, dl, cn, gen, old_cv, lt_c, rc_c, so, 
+                                 out, ndl, old, wq, dw, k >>
 
 wn_6_ld(self) == /\ pc[self] = "wn_6_ld"
                  /\ IF nww[self] = 0
@@ -3524,8 +3544,8 @@ wn_6_ld(self) == /\ pc[self] = "wn_6_ld"
                                  old_t, c, dl_, cn_, old_mu_w, lt_, first, 
                                  out_, rc_, hadw, ata, so_, havel, tw, allr, 
                                  omw, fca, sorw, all, old_c, tws, alr, rmq, dl, 
-                                 cn, old_cv, lt_c, rc_c, so, out, ndl, old, wq, 
-                                 dw, k >>
+                                 cn, gen, old_cv, lt_c, rc_c, so, out, ndl, 
+                                 old, wq, dw, k >>
 
 wn_7_pd(self) == /\ pc[self] = "wn_7_pd"
                  /\ sem[W(self)] > 0 \/ Expired(ndl[self], now)
@@ -3545,8 +3565,8 @@ wn_7_pd(self) == /\ pc[self] = "wn_7_pd"
                                  old_t, c, dl_, cn_, old_mu_w, lt_, first, 
                                  out_, rc_, hadw, ata, so_, havel, tw, allr, 
                                  omw, fca, sorw, all, old_c, tws, alr, rmq, dl, 
-                                 cn, old_cv, lt_c, rc_c, so, out, ndl, old, wq, 
-                                 dw, k >>
+                                 cn, gen, old_cv, lt_c, rc_c, so, out, ndl, 
+                                 old, wq, dw, k >>
 
 wn_8_ld(self) == /\ pc[self] = "wn_8_ld"
                  /\ old' = [old EXCEPT ![self] = cvword]
@@ -3564,8 +3584,8 @@ wn_8_ld(self) == /\ pc[self] = "wn_8_ld"
                                  old_t, c, dl_, cn_, old_mu_w, lt_, first, 
                                  out_, rc_, hadw, ata, so_, havel, tw, allr, 
                                  omw, fca, sorw, all, old_c, tws, alr, rmq, dl, 
-                                 cn, old_cv, lt_c, rc_c, so, out, ndl, wq, dw, 
-                                 k >>
+                                 cn, gen, old_cv, lt_c, rc_c, so, out, ndl, wq, 
+                                 dw, k >>
 
 wn_9_cas(self) == /\ pc[self] = "wn_9_cas"
                   /\ IF cvword = old[self]
@@ -3584,8 +3604,8 @@ wn_9_cas(self) == /\ pc[self] = "wn_9_cas"
                                   lt, rc, old_t, c, dl_, cn_, old_mu_w, lt_, 
                                   first, out_, rc_, hadw, ata, so_, havel, tw, 
                                   allr, omw, fca, sorw, all, old_c, tws, alr, 
-                                  rmq, dl, cn, old_cv, lt_c, rc_c, so, out, 
-                                  ndl, old, wq, dw, k >>
+                                  rmq, dl, cn, gen, old_cv, lt_c, rc_c, so, 
+                                  out, ndl, old, wq, dw, k >>
 
 wn_8_d(self) == /\ pc[self] = "wn_8_d"
                 /\ pc' = [pc EXCEPT ![self] = "wn_8_ld"]
@@ -3599,7 +3619,7 @@ wn_8_d(self) == /\ pc[self] = "wn_8_d"
                                 old_mu, lt_mu_, ww, old_mu_, sdl, scn, lt, rc, 
                                 old_t, c, dl_, cn_, old_mu_w, lt_, first, out_, 
                                 rc_, hadw, ata, so_, havel, tw, allr, omw, fca, 
-                                sorw, all, old_c, tws, alr, rmq, dl, cn, 
+                                sorw, all, old_c, tws, alr, rmq, dl, cn, gen, 
                                 old_cv, lt_c, rc_c, so, out, ndl, old, wq, dw, 
                                 k >>
 
@@ -3623,8 +3643,8 @@ wn_10_ld(self) == /\ pc[self] = "wn_10_ld"
                                   lt, rc, old_t, c, dl_, cn_, old_mu_w, lt_, 
                                   first, out_, rc_, hadw, ata, so_, havel, tw, 
                                   allr, omw, fca, sorw, all, old_c, tws, alr, 
-                                  rmq, dl, cn, old_cv, lt_c, rc_c, so, out, 
-                                  ndl, old, dw, k >>
+                                  rmq, dl, cn, gen, old_cv, lt_c, rc_c, so, 
+                                  out, ndl, old, dw, k >>
 
 wn_11_st(self) == /\ pc[self] = "wn_11_st"
                   /\ nww' = [nww EXCEPT ![self] = 0]
@@ -3640,8 +3660,8 @@ wn_11_st(self) == /\ pc[self] = "wn_11_st"
                                   sdl, scn, lt, rc, old_t, c, dl_, cn_, 
                                   old_mu_w, lt_, first, out_, rc_, hadw, ata, 
                                   so_, havel, tw, allr, omw, fca, sorw, all, 
-                                  old_c, tws, alr, rmq, dl, cn, old_cv, lt_c, 
-                                  rc_c, so, out, ndl, old, wq, dw, k >>
+                                  old_c, tws, alr, rmq, dl, cn, gen, old_cv, 
+                                  lt_c, rc_c, so, out, ndl, old, wq, dw, k >>
 
 wn_12_st(self) == /\ pc[self] = "wn_12_st"
                   /\ cvword' = (IF cvq = <<>> THEN Clr(old[self], CVNE) ELSE old[self])
@@ -3663,8 +3683,9 @@ wn_12_st(self) == /\ pc[self] = "wn_12_st"
                                   ww, old_mu_, sdl, scn, lt, rc, old_t, c, dl_, 
                                   cn_, old_mu_w, lt_, first, out_, rc_, hadw, 
                                   ata, so_, havel, tw, allr, omw, fca, sorw, 
-                                  all, old_c, tws, alr, rmq, dl, cn, old_cv, 
-                                  lt_c, rc_c, so, out, ndl, old, wq, dw, k >>
+                                  all, old_c, tws, alr, rmq, dl, cn, gen, 
+                                  old_cv, lt_c, rc_c, so, out, ndl, old, wq, 
+                                  dw, k >>
 
 wn_13_l(self) == /\ pc[self] = "wn_13_l"
                  /\ ret' = [ret EXCEPT ![self] = IF wq[self] THEN 1 ELSE 0]
@@ -3684,8 +3705,8 @@ wn_13_l(self) == /\ pc[self] = "wn_13_l"
                                  old_mu_, sdl, scn, lt, rc, old_t, c, dl_, cn_, 
                                  old_mu_w, lt_, first, out_, rc_, hadw, ata, 
                                  so_, havel, tw, allr, omw, fca, sorw, all, 
-                                 old_c, tws, alr, rmq, dl, cn, old_cv, lt_c, 
-                                 rc_c, so, out, dw, k >>
+                                 old_c, tws, alr, rmq, dl, cn, gen, old_cv, 
+                                 lt_c, rc_c, so, out, dw, k >>
 
 wait_n(self) == wn_1_st(self) \/ wn_2_ld(self) \/ wn_3_cas(self)
                    \/ wn_2_d(self) \/ wn_4_st(self) \/ wn_5_st(self)
@@ -3711,7 +3732,7 @@ db_1_ld(self) == /\ pc[self] = "db_1_ld"
                                  lt_mu_, ww, old_mu_, sdl, scn, lt, rc, old_t, 
                                  c, dl_, cn_, old_mu_w, lt_, first, out_, rc_, 
                                  hadw, ata, so_, havel, tw, allr, omw, fca, 
-                                 sorw, all, old_c, tws, alr, rmq, dl, cn, 
+                                 sorw, all, old_c, tws, alr, rmq, dl, cn, gen, 
                                  old_cv, lt_c, rc_c, so, out, ndl, old, wq >>
 
 db_2_ld(self) == /\ pc[self] = "db_2_ld"
@@ -3730,8 +3751,8 @@ db_2_ld(self) == /\ pc[self] = "db_2_ld"
                                  old_t, c, dl_, cn_, old_mu_w, lt_, first, 
                                  out_, rc_, hadw, ata, so_, havel, tw, allr, 
                                  omw, fca, sorw, all, old_c, tws, alr, rmq, dl, 
-                                 cn, old_cv, lt_c, rc_c, so, out, ndl, old, wq, 
-                                 k >>
+                                 cn, gen, old_cv, lt_c, rc_c, so, out, ndl, 
+                                 old, wq, k >>
 
 db_3_cas(self) == /\ pc[self] = "db_3_cas"
                   /\ IF word = dw[self]
@@ -3751,8 +3772,8 @@ db_3_cas(self) == /\ pc[self] = "db_3_cas"
                                   sdl, scn, lt, rc, old_t, c, dl_, cn_, 
                                   old_mu_w, lt_, first, out_, rc_, hadw, ata, 
                                   so_, havel, tw, allr, omw, fca, sorw, all, 
-                                  old_c, tws, alr, rmq, dl, cn, old_cv, lt_c, 
-                                  rc_c, so, out, ndl, old, wq, dw >>
+                                  old_c, tws, alr, rmq, dl, cn, gen, old_cv, 
+                                  lt_c, rc_c, so, out, ndl, old, wq, dw >>
 
 db_d(self) == /\ pc[self] = "db_d"
               /\ pc' = [pc EXCEPT ![self] = "db_2_ld"]
@@ -3766,8 +3787,8 @@ db_d(self) == /\ pc[self] = "db_d"
                               ww, old_mu_, sdl, scn, lt, rc, old_t, c, dl_, 
                               cn_, old_mu_w, lt_, first, out_, rc_, hadw, ata, 
                               so_, havel, tw, allr, omw, fca, sorw, all, old_c, 
-                              tws, alr, rmq, dl, cn, old_cv, lt_c, rc_c, so, 
-                              out, ndl, old, wq, dw, k >>
+                              tws, alr, rmq, dl, cn, gen, old_cv, lt_c, rc_c, 
+                              so, out, ndl, old, wq, dw, k >>
 
 db_w_l(self) == /\ pc[self] = "db_w_l"
                 /\ IF k[self] = 0
@@ -3783,7 +3804,7 @@ db_w_l(self) == /\ pc[self] = "db_w_l"
                                 old_mu, lt_mu_, ww, old_mu_, sdl, scn, lt, rc, 
                                 old_t, c, dl_, cn_, old_mu_w, lt_, first, out_, 
                                 rc_, hadw, ata, so_, havel, tw, allr, omw, fca, 
-                                sorw, all, old_c, tws, alr, rmq, dl, cn, 
+                                sorw, all, old_c, tws, alr, rmq, dl, cn, gen, 
                                 old_cv, lt_c, rc_c, so, out, ndl, old, wq, dw, 
                                 k >>
 
@@ -3801,8 +3822,8 @@ db_w1_ld(self) == /\ pc[self] = "db_w1_ld"
                                   sdl, scn, lt, rc, old_t, c, dl_, cn_, 
                                   old_mu_w, lt_, first, out_, rc_, hadw, ata, 
                                   so_, havel, tw, allr, omw, fca, sorw, all, 
-                                  old_c, tws, alr, rmq, dl, cn, old_cv, lt_c, 
-                                  rc_c, so, out, ndl, old, wq, dw, k >>
+                                  old_c, tws, alr, rmq, dl, cn, gen, old_cv, 
+                                  lt_c, rc_c, so, out, ndl, old, wq, dw, k >>
 
 db_w2_ld(self) == /\ pc[self] = "db_w2_ld"
                   /\ k' = [k EXCEPT ![self] = k[self] - 1]
@@ -3818,8 +3839,8 @@ db_w2_ld(self) == /\ pc[self] = "db_w2_ld"
                                   sdl, scn, lt, rc, old_t, c, dl_, cn_, 
                                   old_mu_w, lt_, first, out_, rc_, hadw, ata, 
                                   so_, havel, tw, allr, omw, fca, sorw, all, 
-                                  old_c, tws, alr, rmq, dl, cn, old_cv, lt_c, 
-                                  rc_c, so, out, ndl, old, wq, dw >>
+                                  old_c, tws, alr, rmq, dl, cn, gen, old_cv, 
+                                  lt_c, rc_c, so, out, ndl, old, wq, dw >>
 
 db_rel_l(self) == /\ pc[self] = "db_rel_l"
                   /\ IF DbgFixed
@@ -3836,8 +3857,8 @@ db_rel_l(self) == /\ pc[self] = "db_rel_l"
                                   sdl, scn, lt, rc, old_t, c, dl_, cn_, 
                                   old_mu_w, lt_, first, out_, rc_, hadw, ata, 
                                   so_, havel, tw, allr, omw, fca, sorw, all, 
-                                  old_c, tws, alr, rmq, dl, cn, old_cv, lt_c, 
-                                  rc_c, so, out, ndl, old, wq, dw, k >>
+                                  old_c, tws, alr, rmq, dl, cn, gen, old_cv, 
+                                  lt_c, rc_c, so, out, ndl, old, wq, dw, k >>
 
 db_4_st(self) == /\ pc[self] = "db_4_st"
                  /\ word' = dw[self]
@@ -3855,7 +3876,7 @@ db_4_st(self) == /\ pc[self] = "db_4_st"
                                  lt_mu_, ww, old_mu_, sdl, scn, lt, rc, old_t, 
                                  c, dl_, cn_, old_mu_w, lt_, first, out_, rc_, 
                                  hadw, ata, so_, havel, tw, allr, omw, fca, 
-                                 sorw, all, old_c, tws, alr, rmq, dl, cn, 
+                                 sorw, all, old_c, tws, alr, rmq, dl, cn, gen, 
                                  old_cv, lt_c, rc_c, so, out, ndl, old, wq >>
 
 db_5_ld(self) == /\ pc[self] = "db_5_ld"
@@ -3872,8 +3893,8 @@ db_5_ld(self) == /\ pc[self] = "db_5_ld"
                                  old_t, c, dl_, cn_, old_mu_w, lt_, first, 
                                  out_, rc_, hadw, ata, so_, havel, tw, allr, 
                                  omw, fca, sorw, all, old_c, tws, alr, rmq, dl, 
-                                 cn, old_cv, lt_c, rc_c, so, out, ndl, old, wq, 
-                                 k >>
+                                 cn, gen, old_cv, lt_c, rc_c, so, out, ndl, 
+                                 old, wq, k >>
 
 db_6_cas(self) == /\ pc[self] = "db_6_cas"
                   /\ IF word = dw[self]
@@ -3895,8 +3916,8 @@ db_6_cas(self) == /\ pc[self] = "db_6_cas"
                                   lt, rc, old_t, c, dl_, cn_, old_mu_w, lt_, 
                                   first, out_, rc_, hadw, ata, so_, havel, tw, 
                                   allr, omw, fca, sorw, all, old_c, tws, alr, 
-                                  rmq, dl, cn, old_cv, lt_c, rc_c, so, out, 
-                                  ndl, old, wq >>
+                                  rmq, dl, cn, gen, old_cv, lt_c, rc_c, so, 
+                                  out, ndl, old, wq >>
 
 debug_state(self) == db_1_ld(self) \/ db_2_ld(self) \/ db_3_cas(self)
                         \/ db_d(self) \/ db_w_l(self) \/ db_w1_ld(self)
@@ -3917,8 +3938,8 @@ c0(self) == /\ pc[self] = "c0"
                                        lt_mu_, ww, old_mu_, c, dl_, cn_, 
                                        old_mu_w, lt_, first, out_, rc_, hadw, 
                                        ata, so_, havel, all, old_c, tws, alr, 
-                                       rmq, dl, cn, old_cv, lt_c, rc_c, so, 
-                                       out, ndl, old, wq, dw, k >>
+                                       rmq, dl, cn, gen, old_cv, lt_c, rc_c, 
+                                       so, out, ndl, old, wq, dw, k >>
                   ELSE /\ IF ip[self] > Len(Prog[self])
                              THEN /\ ip' = [ip EXCEPT ![self] = 1]
                                   /\ pc' = [pc EXCEPT ![self] = "c0"]
@@ -3930,9 +3951,9 @@ c0(self) == /\ pc[self] = "c0"
                                                   c, dl_, cn_, old_mu_w, lt_, 
                                                   first, out_, rc_, hadw, ata, 
                                                   so_, havel, all, old_c, tws, 
-                                                  alr, rmq, dl, cn, old_cv, 
-                                                  lt_c, rc_c, so, out, ndl, 
-                                                  old, wq, dw, k >>
+                                                  alr, rmq, dl, cn, gen, 
+                                                  old_cv, lt_c, rc_c, so, out, 
+                                                  ndl, old, wq, dw, k >>
                              ELSE /\ IF CurOp(self).op = "lock"
                                         THEN /\ ip' = [ip EXCEPT ![self] = ip[self] + 1]
                                              /\ sleeps' = [sleeps EXCEPT ![self] = 0]
@@ -3957,7 +3978,7 @@ c0(self) == /\ pc[self] = "c0"
                                                              rc_, hadw, ata, 
                                                              so_, havel, all, 
                                                              old_c, tws, alr, 
-                                                             rmq, dl, cn, 
+                                                             rmq, dl, cn, gen, 
                                                              old_cv, lt_c, 
                                                              rc_c, so, out, 
                                                              ndl, old, wq, dw, 
@@ -4003,6 +4024,7 @@ c0(self) == /\ pc[self] = "c0"
                                                                         alr, 
                                                                         rmq, 
                                                                         dl, cn, 
+                                                                        gen, 
                                                                         old_cv, 
                                                                         lt_c, 
                                                                         rc_c, 
@@ -4054,6 +4076,7 @@ c0(self) == /\ pc[self] = "c0"
                                                                                    rmq, 
                                                                                    dl, 
                                                                                    cn, 
+                                                                                   gen, 
                                                                                    old_cv, 
                                                                                    lt_c, 
                                                                                    rc_c, 
@@ -4106,6 +4129,7 @@ c0(self) == /\ pc[self] = "c0"
                                                                                               rmq, 
                                                                                               dl, 
                                                                                               cn, 
+                                                                                              gen, 
                                                                                               old_cv, 
                                                                                               lt_c, 
                                                                                               rc_c, 
@@ -4116,11 +4140,12 @@ c0(self) == /\ pc[self] = "c0"
                                                                                               wq, 
                                                                                               dw, 
                                                                                               k >>
-                                                                         ELSE /\ IF CurOp(self).op = "set"
-                                                                                    THEN /\ ip' = [ip EXCEPT ![self] = ip[self] + 1]
-                                                                                         /\ data' = [data EXCEPT ![CurOp(self).v] = CurOp(self).x]
+                                                                         ELSE /\ IF CurOp(self).op = "gate"
+                                                                                    THEN /\ GateOK(CurOp(self).x)
+                                                                                         /\ ip' = [ip EXCEPT ![self] = ip[self] + 1]
                                                                                          /\ pc' = [pc EXCEPT ![self] = "c0"]
                                                                                          /\ UNCHANGED << sem, 
+                                                                                                         data, 
                                                                                                          note, 
                                                                                                          nreg, 
                                                                                                          ret, 
@@ -4149,6 +4174,7 @@ c0(self) == /\ pc[self] = "c0"
                                                                                                          rmq, 
                                                                                                          dl, 
                                                                                                          cn, 
+                                                                                                         gen, 
                                                                                                          old_cv, 
                                                                                                          lt_c, 
                                                                                                          rc_c, 
@@ -4159,8 +4185,9 @@ c0(self) == /\ pc[self] = "c0"
                                                                                                          wq, 
                                                                                                          dw, 
                                                                                                          k >>
-                                                                                    ELSE /\ IF CurOp(self).op = "skipunless"
-                                                                                               THEN /\ ip' = [ip EXCEPT ![self] = IF ret[self] # 1 THEN ip[self] + 1 + CurOp(self).skip ELSE ip[self] + 1]
+                                                                                    ELSE /\ IF CurOp(self).op = "set"
+                                                                                               THEN /\ ip' = [ip EXCEPT ![self] = ip[self] + 1]
+                                                                                                    /\ data' = [data EXCEPT ![CurOp(self).v] = CurOp(self).x]
                                                                                                     /\ pc' = [pc EXCEPT ![self] = "c0"]
                                                                                                     /\ UNCHANGED << sem, 
                                                                                                                     note, 
@@ -4191,6 +4218,7 @@ c0(self) == /\ pc[self] = "c0"
                                                                                                                     rmq, 
                                                                                                                     dl, 
                                                                                                                     cn, 
+                                                                                                                    gen, 
                                                                                                                     old_cv, 
                                                                                                                     lt_c, 
                                                                                                                     rc_c, 
@@ -4201,36 +4229,9 @@ c0(self) == /\ pc[self] = "c0"
                                                                                                                     wq, 
                                                                                                                     dw, 
                                                                                                                     k >>
-                                                                                               ELSE /\ IF CurOp(self).op = "muwait"
-                                                                                                          THEN /\ ip' = [ip EXCEPT ![self] = ip[self] + 1]
-                                                                                                               /\ /\ c' = [c EXCEPT ![self] = CurOp(self).c]
-                                                                                                                  /\ cn_' = [cn_ EXCEPT ![self] = CurOp(self).cn]
-                                                                                                                  /\ dl_' = [dl_ EXCEPT ![self] = CurOp(self).dl]
-                                                                                                                  /\ stack' = [stack EXCEPT ![self] = << [ procedure |->  "mu_wait",
-                                                                                                                                                           pc        |->  "c0",
-                                                                                                                                                           old_mu_w  |->  old_mu_w[self],
-                                                                                                                                                           lt_       |->  lt_[self],
-                                                                                                                                                           first     |->  first[self],
-                                                                                                                                                           out_      |->  out_[self],
-                                                                                                                                                           rc_       |->  rc_[self],
-                                                                                                                                                           hadw      |->  hadw[self],
-                                                                                                                                                           ata       |->  ata[self],
-                                                                                                                                                           so_       |->  so_[self],
-                                                                                                                                                           havel     |->  havel[self],
-                                                                                                                                                           c         |->  c[self],
-                                                                                                                                                           dl_       |->  dl_[self],
-                                                                                                                                                           cn_       |->  cn_[self] ] >>
-                                                                                                                                                       \o stack[self]]
-                                                                                                               /\ old_mu_w' = [old_mu_w EXCEPT ![self] = 0]
-                                                                                                               /\ lt_' = [lt_ EXCEPT ![self] = 0]
-                                                                                                               /\ first' = [first EXCEPT ![self] = TRUE]
-                                                                                                               /\ out_' = [out_ EXCEPT ![self] = 0]
-                                                                                                               /\ rc_' = [rc_ EXCEPT ![self] = 0]
-                                                                                                               /\ hadw' = [hadw EXCEPT ![self] = FALSE]
-                                                                                                               /\ ata' = [ata EXCEPT ![self] = 0]
-                                                                                                               /\ so_' = [so_ EXCEPT ![self] = 0]
-                                                                                                               /\ havel' = [havel EXCEPT ![self] = FALSE]
-                                                                                                               /\ pc' = [pc EXCEPT ![self] = "mw_1_ld"]
+                                                                                               ELSE /\ IF CurOp(self).op = "skipunless"
+                                                                                                          THEN /\ ip' = [ip EXCEPT ![self] = IF ret[self] # 1 THEN ip[self] + 1 + CurOp(self).skip ELSE ip[self] + 1]
+                                                                                                               /\ pc' = [pc EXCEPT ![self] = "c0"]
                                                                                                                /\ UNCHANGED << sem, 
                                                                                                                                note, 
                                                                                                                                nreg, 
@@ -4240,6 +4241,19 @@ c0(self) == /\ pc[self] = "c0"
                                                                                                                                nalloc, 
                                                                                                                                muFreed, 
                                                                                                                                refs, 
+                                                                                                                               stack, 
+                                                                                                                               c, 
+                                                                                                                               dl_, 
+                                                                                                                               cn_, 
+                                                                                                                               old_mu_w, 
+                                                                                                                               lt_, 
+                                                                                                                               first, 
+                                                                                                                               out_, 
+                                                                                                                               rc_, 
+                                                                                                                               hadw, 
+                                                                                                                               ata, 
+                                                                                                                               so_, 
+                                                                                                                               havel, 
                                                                                                                                all, 
                                                                                                                                old_c, 
                                                                                                                                tws, 
@@ -4247,6 +4261,7 @@ c0(self) == /\ pc[self] = "c0"
                                                                                                                                rmq, 
                                                                                                                                dl, 
                                                                                                                                cn, 
+                                                                                                                               gen, 
                                                                                                                                old_cv, 
                                                                                                                                lt_c, 
                                                                                                                                rc_c, 
@@ -4257,42 +4272,43 @@ c0(self) == /\ pc[self] = "c0"
                                                                                                                                wq, 
                                                                                                                                dw, 
                                                                                                                                k >>
-                                                                                                          ELSE /\ IF CurOp(self).op = "cvwait"
+                                                                                                          ELSE /\ IF CurOp(self).op = "muwait"
                                                                                                                      THEN /\ ip' = [ip EXCEPT ![self] = ip[self] + 1]
-                                                                                                                          /\ IF mw[self] = 0
-                                                                                                                                THEN /\ IF pool # <<>>
-                                                                                                                                           THEN /\ mw' = [mw EXCEPT ![self] = Head(pool)]
-                                                                                                                                                /\ pool' = Tail(pool)
-                                                                                                                                                /\ UNCHANGED nalloc
-                                                                                                                                           ELSE /\ mw' = [mw EXCEPT ![self] = nalloc + 1]
-                                                                                                                                                /\ nalloc' = nalloc + 1
-                                                                                                                                                /\ pool' = pool
-                                                                                                                                ELSE /\ TRUE
-                                                                                                                                     /\ UNCHANGED << mw, 
-                                                                                                                                                     pool, 
-                                                                                                                                                     nalloc >>
-                                                                                                                          /\ /\ cn' = [cn EXCEPT ![self] = CurOp(self).cn]
-                                                                                                                             /\ dl' = [dl EXCEPT ![self] = CurOp(self).dl]
-                                                                                                                             /\ stack' = [stack EXCEPT ![self] = << [ procedure |->  "cv_wait",
+                                                                                                                          /\ /\ c' = [c EXCEPT ![self] = CurOp(self).c]
+                                                                                                                             /\ cn_' = [cn_ EXCEPT ![self] = CurOp(self).cn]
+                                                                                                                             /\ dl_' = [dl_ EXCEPT ![self] = CurOp(self).dl]
+                                                                                                                             /\ stack' = [stack EXCEPT ![self] = << [ procedure |->  "mu_wait",
                                                                                                                                                                       pc        |->  "c0",
-                                                                                                                                                                      old_cv    |->  old_cv[self],
-                                                                                                                                                                      lt_c      |->  lt_c[self],
-                                                                                                                                                                      rc_c      |->  rc_c[self],
-                                                                                                                                                                      so        |->  so[self],
-                                                                                                                                                                      out       |->  out[self],
-                                                                                                                                                                      dl        |->  dl[self],
-                                                                                                                                                                      cn        |->  cn[self] ] >>
+                                                                                                                                                                      old_mu_w  |->  old_mu_w[self],
+                                                                                                                                                                      lt_       |->  lt_[self],
+                                                                                                                                                                      first     |->  first[self],
+                                                                                                                                                                      out_      |->  out_[self],
+                                                                                                                                                                      rc_       |->  rc_[self],
+                                                                                                                                                                      hadw      |->  hadw[self],
+                                                                                                                                                                      ata       |->  ata[self],
+                                                                                                                                                                      so_       |->  so_[self],
+                                                                                                                                                                      havel     |->  havel[self],
+                                                                                                                                                                      c         |->  c[self],
+                                                                                                                                                                      dl_       |->  dl_[self],
+                                                                                                                                                                      cn_       |->  cn_[self] ] >>
                                                                                                                                                                   \o stack[self]]
-                                                                                                                          /\ old_cv' = [old_cv EXCEPT ![self] = 0]
-                                                                                                                          /\ lt_c' = [lt_c EXCEPT ![self] = 0]
-                                                                                                                          /\ rc_c' = [rc_c EXCEPT ![self] = 0]
-                                                                                                                          /\ so' = [so EXCEPT ![self] = 0]
-                                                                                                                          /\ out' = [out EXCEPT ![self] = 0]
-                                                                                                                          /\ pc' = [pc EXCEPT ![self] = "cw_1_st"]
+                                                                                                                          /\ old_mu_w' = [old_mu_w EXCEPT ![self] = 0]
+                                                                                                                          /\ lt_' = [lt_ EXCEPT ![self] = 0]
+                                                                                                                          /\ first' = [first EXCEPT ![self] = TRUE]
+                                                                                                                          /\ out_' = [out_ EXCEPT ![self] = 0]
+                                                                                                                          /\ rc_' = [rc_ EXCEPT ![self] = 0]
+                                                                                                                          /\ hadw' = [hadw EXCEPT ![self] = FALSE]
+                                                                                                                          /\ ata' = [ata EXCEPT ![self] = 0]
+                                                                                                                          /\ so_' = [so_ EXCEPT ![self] = 0]
+                                                                                                                          /\ havel' = [havel EXCEPT ![self] = FALSE]
+                                                                                                                          /\ pc' = [pc EXCEPT ![self] = "mw_1_ld"]
                                                                                                                           /\ UNCHANGED << sem, 
                                                                                                                                           note, 
                                                                                                                                           nreg, 
                                                                                                                                           ret, 
+                                                                                                                                          mw, 
+                                                                                                                                          pool, 
+                                                                                                                                          nalloc, 
                                                                                                                                           muFreed, 
                                                                                                                                           refs, 
                                                                                                                                           all, 
@@ -4300,62 +4316,57 @@ c0(self) == /\ pc[self] = "c0"
                                                                                                                                           tws, 
                                                                                                                                           alr, 
                                                                                                                                           rmq, 
+                                                                                                                                          dl, 
+                                                                                                                                          cn, 
+                                                                                                                                          gen, 
+                                                                                                                                          old_cv, 
+                                                                                                                                          lt_c, 
+                                                                                                                                          rc_c, 
+                                                                                                                                          so, 
+                                                                                                                                          out, 
                                                                                                                                           ndl, 
                                                                                                                                           old, 
                                                                                                                                           wq, 
                                                                                                                                           dw, 
                                                                                                                                           k >>
-                                                                                                                     ELSE /\ IF CurOp(self).op = "cvloop"
-                                                                                                                                THEN /\ IF data[CurOp(self).v] = 0 /\ ret[self] \notin {ETIMEDOUT, ECANCELED}
-                                                                                                                                           THEN /\ IF mw[self] = 0
-                                                                                                                                                      THEN /\ IF pool # <<>>
-                                                                                                                                                                 THEN /\ mw' = [mw EXCEPT ![self] = Head(pool)]
-                                                                                                                                                                      /\ pool' = Tail(pool)
-                                                                                                                                                                      /\ UNCHANGED nalloc
-                                                                                                                                                                 ELSE /\ mw' = [mw EXCEPT ![self] = nalloc + 1]
-                                                                                                                                                                      /\ nalloc' = nalloc + 1
-                                                                                                                                                                      /\ pool' = pool
-                                                                                                                                                      ELSE /\ TRUE
-                                                                                                                                                           /\ UNCHANGED << mw, 
-                                                                                                                                                                           pool, 
-                                                                                                                                                                           nalloc >>
-                                                                                                                                                /\ /\ cn' = [cn EXCEPT ![self] = CurOp(self).cn]
-                                                                                                                                                   /\ dl' = [dl EXCEPT ![self] = CurOp(self).dl]
-                                                                                                                                                   /\ stack' = [stack EXCEPT ![self] = << [ procedure |->  "cv_wait",
-                                                                                                                                                                                            pc        |->  "c0",
-                                                                                                                                                                                            old_cv    |->  old_cv[self],
-                                                                                                                                                                                            lt_c      |->  lt_c[self],
-                                                                                                                                                                                            rc_c      |->  rc_c[self],
-                                                                                                                                                                                            so        |->  so[self],
-                                                                                                                                                                                            out       |->  out[self],
-                                                                                                                                                                                            dl        |->  dl[self],
-                                                                                                                                                                                            cn        |->  cn[self] ] >>
-                                                                                                                                                                                        \o stack[self]]
-                                                                                                                                                /\ old_cv' = [old_cv EXCEPT ![self] = 0]
-                                                                                                                                                /\ lt_c' = [lt_c EXCEPT ![self] = 0]
-                                                                                                                                                /\ rc_c' = [rc_c EXCEPT ![self] = 0]
-                                                                                                                                                /\ so' = [so EXCEPT ![self] = 0]
-                                                                                                                                                /\ out' = [out EXCEPT ![self] = 0]
-                                                                                                                                                /\ pc' = [pc EXCEPT ![self] = "cw_1_st"]
-                                                                                                                                                /\ UNCHANGED << ret, 
-                                                                                                                                                                ip >>
-                                                                                                                                           ELSE /\ ip' = [ip EXCEPT ![self] = ip[self] + 1]
-                                                                                                                                                /\ ret' = [ret EXCEPT ![self] = -1]
-                                                                                                                                                /\ pc' = [pc EXCEPT ![self] = "c0"]
+                                                                                                                     ELSE /\ IF CurOp(self).op = "cvwait"
+                                                                                                                                THEN /\ ip' = [ip EXCEPT ![self] = ip[self] + 1]
+                                                                                                                                     /\ IF mw[self] = 0
+                                                                                                                                           THEN /\ IF pool # <<>>
+                                                                                                                                                      THEN /\ mw' = [mw EXCEPT ![self] = Head(pool)]
+                                                                                                                                                           /\ pool' = Tail(pool)
+                                                                                                                                                           /\ UNCHANGED nalloc
+                                                                                                                                                      ELSE /\ mw' = [mw EXCEPT ![self] = nalloc + 1]
+                                                                                                                                                           /\ nalloc' = nalloc + 1
+                                                                                                                                                           /\ pool' = pool
+                                                                                                                                           ELSE /\ TRUE
                                                                                                                                                 /\ UNCHANGED << mw, 
                                                                                                                                                                 pool, 
-                                                                                                                                                                nalloc, 
-                                                                                                                                                                stack, 
-                                                                                                                                                                dl, 
-                                                                                                                                                                cn, 
-                                                                                                                                                                old_cv, 
-                                                                                                                                                                lt_c, 
-                                                                                                                                                                rc_c, 
-                                                                                                                                                                so, 
-                                                                                                                                                                out >>
+                                                                                                                                                                nalloc >>
+                                                                                                                                     /\ /\ cn' = [cn EXCEPT ![self] = CurOp(self).cn]
+                                                                                                                                        /\ dl' = [dl EXCEPT ![self] = CurOp(self).dl]
+                                                                                                                                        /\ gen' = [gen EXCEPT ![self] = CurOp(self).x = 9]
+                                                                                                                                        /\ stack' = [stack EXCEPT ![self] = << [ procedure |->  "cv_wait",
+                                                                                                                                                                                 pc        |->  "c0",
+                                                                                                                                                                                 old_cv    |->  old_cv[self],
+                                                                                                                                                                                 lt_c      |->  lt_c[self],
+                                                                                                                                                                                 rc_c      |->  rc_c[self],
+                                                                                                                                                                                 so        |->  so[self],
+                                                                                                                                                                                 out       |->  out[self],
+                                                                                                                                                                                 dl        |->  dl[self],
+                                                                                                                                                                                 cn        |->  cn[self],
+                                                                                                                                                                                 gen       |->  gen[self] ] >>
+                                                                                                                                                                             \o stack[self]]
+                                                                                                                                     /\ old_cv' = [old_cv EXCEPT ![self] = 0]
+                                                                                                                                     /\ lt_c' = [lt_c EXCEPT ![self] = 0]
+                                                                                                                                     /\ rc_c' = [rc_c EXCEPT ![self] = 0]
+                                                                                                                                     /\ so' = [so EXCEPT ![self] = 0]
+                                                                                                                                     /\ out' = [out EXCEPT ![self] = 0]
+                                                                                                                                     /\ pc' = [pc EXCEPT ![self] = "cw_1_st"]
                                                                                                                                      /\ UNCHANGED << sem, 
                                                                                                                                                      note, 
                                                                                                                                                      nreg, 
+                                                                                                                                                     ret, 
                                                                                                                                                      muFreed, 
                                                                                                                                                      refs, 
                                                                                                                                                      all, 
@@ -4368,34 +4379,60 @@ c0(self) == /\ pc[self] = "c0"
                                                                                                                                                      wq, 
                                                                                                                                                      dw, 
                                                                                                                                                      k >>
-                                                                                                                                ELSE /\ IF CurOp(self).op = "waitn"
-                                                                                                                                           THEN /\ ip' = [ip EXCEPT ![self] = ip[self] + 1]
-                                                                                                                                                /\ IF mw[self] = 0
-                                                                                                                                                      THEN /\ IF pool # <<>>
-                                                                                                                                                                 THEN /\ mw' = [mw EXCEPT ![self] = Head(pool)]
-                                                                                                                                                                      /\ pool' = Tail(pool)
-                                                                                                                                                                      /\ UNCHANGED nalloc
-                                                                                                                                                                 ELSE /\ mw' = [mw EXCEPT ![self] = nalloc + 1]
-                                                                                                                                                                      /\ nalloc' = nalloc + 1
-                                                                                                                                                                      /\ pool' = pool
-                                                                                                                                                      ELSE /\ TRUE
+                                                                                                                                ELSE /\ IF CurOp(self).op = "cvloop"
+                                                                                                                                           THEN /\ IF data[CurOp(self).v] = 0 /\ ret[self] \notin {ETIMEDOUT, ECANCELED}
+                                                                                                                                                      THEN /\ IF mw[self] = 0
+                                                                                                                                                                 THEN /\ IF pool # <<>>
+                                                                                                                                                                            THEN /\ mw' = [mw EXCEPT ![self] = Head(pool)]
+                                                                                                                                                                                 /\ pool' = Tail(pool)
+                                                                                                                                                                                 /\ UNCHANGED nalloc
+                                                                                                                                                                            ELSE /\ mw' = [mw EXCEPT ![self] = nalloc + 1]
+                                                                                                                                                                                 /\ nalloc' = nalloc + 1
+                                                                                                                                                                                 /\ pool' = pool
+                                                                                                                                                                 ELSE /\ TRUE
+                                                                                                                                                                      /\ UNCHANGED << mw, 
+                                                                                                                                                                                      pool, 
+                                                                                                                                                                                      nalloc >>
+                                                                                                                                                           /\ /\ cn' = [cn EXCEPT ![self] = CurOp(self).cn]
+                                                                                                                                                              /\ dl' = [dl EXCEPT ![self] = CurOp(self).dl]
+                                                                                                                                                              /\ gen' = [gen EXCEPT ![self] = CurOp(self).x = 9]
+                                                                                                                                                              /\ stack' = [stack EXCEPT ![self] = << [ procedure |->  "cv_wait",
+                                                                                                                                                                                                       pc        |->  "c0",
+                                                                                                                                                                                                       old_cv    |->  old_cv[self],
+                                                                                                                                                                                                       lt_c      |->  lt_c[self],
+                                                                                                                                                                                                       rc_c      |->  rc_c[self],
+                                                                                                                                                                                                       so        |->  so[self],
+                                                                                                                                                                                                       out       |->  out[self],
+                                                                                                                                                                                                       dl        |->  dl[self],
+                                                                                                                                                                                                       cn        |->  cn[self],
+                                                                                                                                                                                                       gen       |->  gen[self] ] >>
+                                                                                                                                                                                                   \o stack[self]]
+                                                                                                                                                           /\ old_cv' = [old_cv EXCEPT ![self] = 0]
+                                                                                                                                                           /\ lt_c' = [lt_c EXCEPT ![self] = 0]
+                                                                                                                                                           /\ rc_c' = [rc_c EXCEPT ![self] = 0]
+                                                                                                                                                           /\ so' = [so EXCEPT ![self] = 0]
+                                                                                                                                                           /\ out' = [out EXCEPT ![self] = 0]
+                                                                                                                                                           /\ pc' = [pc EXCEPT ![self] = "cw_1_st"]
+                                                                                                                                                           /\ UNCHANGED << ret, 
+                                                                                                                                                                           ip >>
+                                                                                                                                                      ELSE /\ ip' = [ip EXCEPT ![self] = ip[self] + 1]
+                                                                                                                                                           /\ ret' = [ret EXCEPT ![self] = -1]
+                                                                                                                                                           /\ pc' = [pc EXCEPT ![self] = "c0"]
                                                                                                                                                            /\ UNCHANGED << mw, 
                                                                                                                                                                            pool, 
-                                                                                                                                                                           nalloc >>
-                                                                                                                                                /\ /\ ndl' = [ndl EXCEPT ![self] = CurOp(self).dl]
-                                                                                                                                                   /\ stack' = [stack EXCEPT ![self] = << [ procedure |->  "wait_n",
-                                                                                                                                                                                            pc        |->  "c0",
-                                                                                                                                                                                            old       |->  old[self],
-                                                                                                                                                                                            wq        |->  wq[self],
-                                                                                                                                                                                            ndl       |->  ndl[self] ] >>
-                                                                                                                                                                                        \o stack[self]]
-                                                                                                                                                /\ old' = [old EXCEPT ![self] = 0]
-                                                                                                                                                /\ wq' = [wq EXCEPT ![self] = FALSE]
-                                                                                                                                                /\ pc' = [pc EXCEPT ![self] = "wn_1_st"]
+                                                                                                                                                                           nalloc, 
+                                                                                                                                                                           stack, 
+                                                                                                                                                                           dl, 
+                                                                                                                                                                           cn, 
+                                                                                                                                                                           gen, 
+                                                                                                                                                                           old_cv, 
+                                                                                                                                                                           lt_c, 
+                                                                                                                                                                           rc_c, 
+                                                                                                                                                                           so, 
+                                                                                                                                                                           out >>
                                                                                                                                                 /\ UNCHANGED << sem, 
                                                                                                                                                                 note, 
                                                                                                                                                                 nreg, 
-                                                                                                                                                                ret, 
                                                                                                                                                                 muFreed, 
                                                                                                                                                                 refs, 
                                                                                                                                                                 all, 
@@ -4403,47 +4440,39 @@ c0(self) == /\ pc[self] = "c0"
                                                                                                                                                                 tws, 
                                                                                                                                                                 alr, 
                                                                                                                                                                 rmq, 
+                                                                                                                                                                ndl, 
+                                                                                                                                                                old, 
+                                                                                                                                                                wq, 
                                                                                                                                                                 dw, 
                                                                                                                                                                 k >>
-                                                                                                                                           ELSE /\ IF CurOp(self).op = "waitnloop"
-                                                                                                                                                      THEN /\ IF data[CurOp(self).v] = 0 /\ ret[self] # 1
-                                                                                                                                                                 THEN /\ IF mw[self] = 0
-                                                                                                                                                                            THEN /\ IF pool # <<>>
-                                                                                                                                                                                       THEN /\ mw' = [mw EXCEPT ![self] = Head(pool)]
-                                                                                                                                                                                            /\ pool' = Tail(pool)
-                                                                                                                                                                                            /\ UNCHANGED nalloc
-                                                                                                                                                                                       ELSE /\ mw' = [mw EXCEPT ![self] = nalloc + 1]
-                                                                                                                                                                                            /\ nalloc' = nalloc + 1
-                                                                                                                                                                                            /\ pool' = pool
-                                                                                                                                                                            ELSE /\ TRUE
-                                                                                                                                                                                 /\ UNCHANGED << mw, 
-                                                                                                                                                                                                 pool, 
-                                                                                                                                                                                                 nalloc >>
-                                                                                                                                                                      /\ /\ ndl' = [ndl EXCEPT ![self] = CurOp(self).dl]
-                                                                                                                                                                         /\ stack' = [stack EXCEPT ![self] = << [ procedure |->  "wait_n",
-                                                                                                                                                                                                                  pc        |->  "c0",
-                                                                                                                                                                                                                  old       |->  old[self],
-                                                                                                                                                                                                                  wq        |->  wq[self],
-                                                                                                                                                                                                                  ndl       |->  ndl[self] ] >>
-                                                                                                                                                                                                              \o stack[self]]
-                                                                                                                                                                      /\ old' = [old EXCEPT ![self] = 0]
-                                                                                                                                                                      /\ wq' = [wq EXCEPT ![self] = FALSE]
-                                                                                                                                                                      /\ pc' = [pc EXCEPT ![self] = "wn_1_st"]
-                                                                                                                                                                      /\ UNCHANGED << ret, 
-                                                                                                                                                                                      ip >>
-                                                                                                                                                                 ELSE /\ ip' = [ip EXCEPT ![self] = ip[self] + 1]
-                                                                                                                                                                      /\ ret' = [ret EXCEPT ![self] = -1]
-                                                                                                                                                                      /\ pc' = [pc EXCEPT ![self] = "c0"]
+                                                                                                                                           ELSE /\ IF CurOp(self).op = "waitn"
+                                                                                                                                                      THEN /\ ip' = [ip EXCEPT ![self] = ip[self] + 1]
+                                                                                                                                                           /\ IF mw[self] = 0
+                                                                                                                                                                 THEN /\ IF pool # <<>>
+                                                                                                                                                                            THEN /\ mw' = [mw EXCEPT ![self] = Head(pool)]
+                                                                                                                                                                                 /\ pool' = Tail(pool)
+                                                                                                                                                                                 /\ UNCHANGED nalloc
+                                                                                                                                                                            ELSE /\ mw' = [mw EXCEPT ![self] = nalloc + 1]
+                                                                                                                                                                                 /\ nalloc' = nalloc + 1
+                                                                                                                                                                                 /\ pool' = pool
+                                                                                                                                                                 ELSE /\ TRUE
                                                                                                                                                                       /\ UNCHANGED << mw, 
                                                                                                                                                                                       pool, 
-                                                                                                                                                                                      nalloc, 
-                                                                                                                                                                                      stack, 
-                                                                                                                                                                                      ndl, 
-                                                                                                                                                                                      old, 
-                                                                                                                                                                                      wq >>
+                                                                                                                                                                                      nalloc >>
+                                                                                                                                                           /\ /\ ndl' = [ndl EXCEPT ![self] = CurOp(self).dl]
+                                                                                                                                                              /\ stack' = [stack EXCEPT ![self] = << [ procedure |->  "wait_n",
+                                                                                                                                                                                                       pc        |->  "c0",
+                                                                                                                                                                                                       old       |->  old[self],
+                                                                                                                                                                                                       wq        |->  wq[self],
+                                                                                                                                                                                                       ndl       |->  ndl[self] ] >>
+                                                                                                                                                                                                   \o stack[self]]
+                                                                                                                                                           /\ old' = [old EXCEPT ![self] = 0]
+                                                                                                                                                           /\ wq' = [wq EXCEPT ![self] = FALSE]
+                                                                                                                                                           /\ pc' = [pc EXCEPT ![self] = "wn_1_st"]
                                                                                                                                                            /\ UNCHANGED << sem, 
                                                                                                                                                                            note, 
                                                                                                                                                                            nreg, 
+                                                                                                                                                                           ret, 
                                                                                                                                                                            muFreed, 
                                                                                                                                                                            refs, 
                                                                                                                                                                            all, 
@@ -4453,33 +4482,57 @@ c0(self) == /\ pc[self] = "c0"
                                                                                                                                                                            rmq, 
                                                                                                                                                                            dw, 
                                                                                                                                                                            k >>
-                                                                                                                                                      ELSE /\ IF CurOp(self).op = "signal"
-                                                                                                                                                                 THEN /\ ip' = [ip EXCEPT ![self] = ip[self] + 1]
-                                                                                                                                                                      /\ /\ all' = [all EXCEPT ![self] = FALSE]
-                                                                                                                                                                         /\ stack' = [stack EXCEPT ![self] = << [ procedure |->  "cv_wake",
-                                                                                                                                                                                                                  pc        |->  "c0",
-                                                                                                                                                                                                                  old_c     |->  old_c[self],
-                                                                                                                                                                                                                  tws       |->  tws[self],
-                                                                                                                                                                                                                  alr       |->  alr[self],
-                                                                                                                                                                                                                  rmq       |->  rmq[self],
-                                                                                                                                                                                                                  all       |->  all[self] ] >>
-                                                                                                                                                                                                              \o stack[self]]
-                                                                                                                                                                      /\ old_c' = [old_c EXCEPT ![self] = 0]
-                                                                                                                                                                      /\ tws' = [tws EXCEPT ![self] = <<>>]
-                                                                                                                                                                      /\ alr' = [alr EXCEPT ![self] = FALSE]
-                                                                                                                                                                      /\ rmq' = [rmq EXCEPT ![self] = <<>>]
-                                                                                                                                                                      /\ pc' = [pc EXCEPT ![self] = "cs_1_ld"]
+                                                                                                                                                      ELSE /\ IF CurOp(self).op = "waitnloop"
+                                                                                                                                                                 THEN /\ IF data[CurOp(self).v] = 0 /\ ret[self] # 1
+                                                                                                                                                                            THEN /\ IF mw[self] = 0
+                                                                                                                                                                                       THEN /\ IF pool # <<>>
+                                                                                                                                                                                                  THEN /\ mw' = [mw EXCEPT ![self] = Head(pool)]
+                                                                                                                                                                                                       /\ pool' = Tail(pool)
+                                                                                                                                                                                                       /\ UNCHANGED nalloc
+                                                                                                                                                                                                  ELSE /\ mw' = [mw EXCEPT ![self] = nalloc + 1]
+                                                                                                                                                                                                       /\ nalloc' = nalloc + 1
+                                                                                                                                                                                                       /\ pool' = pool
+                                                                                                                                                                                       ELSE /\ TRUE
+                                                                                                                                                                                            /\ UNCHANGED << mw, 
+                                                                                                                                                                                                            pool, 
+                                                                                                                                                                                                            nalloc >>
+                                                                                                                                                                                 /\ /\ ndl' = [ndl EXCEPT ![self] = CurOp(self).dl]
+                                                                                                                                                                                    /\ stack' = [stack EXCEPT ![self] = << [ procedure |->  "wait_n",
+                                                                                                                                                                                                                             pc        |->  "c0",
+                                                                                                                                                                                                                             old       |->  old[self],
+                                                                                                                                                                                                                             wq        |->  wq[self],
+                                                                                                                                                                                                                             ndl       |->  ndl[self] ] >>
+                                                                                                                                                                                                                         \o stack[self]]
+                                                                                                                                                                                 /\ old' = [old EXCEPT ![self] = 0]
+                                                                                                                                                                                 /\ wq' = [wq EXCEPT ![self] = FALSE]
+                                                                                                                                                                                 /\ pc' = [pc EXCEPT ![self] = "wn_1_st"]
+                                                                                                                                                                                 /\ UNCHANGED << ret, 
+                                                                                                                                                                                                 ip >>
+                                                                                                                                                                            ELSE /\ ip' = [ip EXCEPT ![self] = ip[self] + 1]
+                                                                                                                                                                                 /\ ret' = [ret EXCEPT ![self] = -1]
+                                                                                                                                                                                 /\ pc' = [pc EXCEPT ![self] = "c0"]
+                                                                                                                                                                                 /\ UNCHANGED << mw, 
+                                                                                                                                                                                                 pool, 
+                                                                                                                                                                                                 nalloc, 
+                                                                                                                                                                                                 stack, 
+                                                                                                                                                                                                 ndl, 
+                                                                                                                                                                                                 old, 
+                                                                                                                                                                                                 wq >>
                                                                                                                                                                       /\ UNCHANGED << sem, 
                                                                                                                                                                                       note, 
                                                                                                                                                                                       nreg, 
-                                                                                                                                                                                      ret, 
                                                                                                                                                                                       muFreed, 
                                                                                                                                                                                       refs, 
+                                                                                                                                                                                      all, 
+                                                                                                                                                                                      old_c, 
+                                                                                                                                                                                      tws, 
+                                                                                                                                                                                      alr, 
+                                                                                                                                                                                      rmq, 
                                                                                                                                                                                       dw, 
                                                                                                                                                                                       k >>
-                                                                                                                                                                 ELSE /\ IF CurOp(self).op = "broadcast"
+                                                                                                                                                                 ELSE /\ IF CurOp(self).op = "signal"
                                                                                                                                                                             THEN /\ ip' = [ip EXCEPT ![self] = ip[self] + 1]
-                                                                                                                                                                                 /\ /\ all' = [all EXCEPT ![self] = TRUE]
+                                                                                                                                                                                 /\ /\ all' = [all EXCEPT ![self] = FALSE]
                                                                                                                                                                                     /\ stack' = [stack EXCEPT ![self] = << [ procedure |->  "cv_wake",
                                                                                                                                                                                                                              pc        |->  "c0",
                                                                                                                                                                                                                              old_c     |->  old_c[self],
@@ -4501,83 +4554,108 @@ c0(self) == /\ pc[self] = "c0"
                                                                                                                                                                                                  refs, 
                                                                                                                                                                                                  dw, 
                                                                                                                                                                                                  k >>
-                                                                                                                                                                            ELSE /\ IF CurOp(self).op = "debug"
+                                                                                                                                                                            ELSE /\ IF CurOp(self).op = "broadcast"
                                                                                                                                                                                        THEN /\ ip' = [ip EXCEPT ![self] = ip[self] + 1]
-                                                                                                                                                                                            /\ stack' = [stack EXCEPT ![self] = << [ procedure |->  "debug_state",
-                                                                                                                                                                                                                                     pc        |->  "c0",
-                                                                                                                                                                                                                                     dw        |->  dw[self],
-                                                                                                                                                                                                                                     k         |->  k[self] ] >>
-                                                                                                                                                                                                                                 \o stack[self]]
-                                                                                                                                                                                            /\ dw' = [dw EXCEPT ![self] = 0]
-                                                                                                                                                                                            /\ k' = [k EXCEPT ![self] = 0]
-                                                                                                                                                                                            /\ pc' = [pc EXCEPT ![self] = "db_1_ld"]
+                                                                                                                                                                                            /\ /\ all' = [all EXCEPT ![self] = TRUE]
+                                                                                                                                                                                               /\ stack' = [stack EXCEPT ![self] = << [ procedure |->  "cv_wake",
+                                                                                                                                                                                                                                        pc        |->  "c0",
+                                                                                                                                                                                                                                        old_c     |->  old_c[self],
+                                                                                                                                                                                                                                        tws       |->  tws[self],
+                                                                                                                                                                                                                                        alr       |->  alr[self],
+                                                                                                                                                                                                                                        rmq       |->  rmq[self],
+                                                                                                                                                                                                                                        all       |->  all[self] ] >>
+                                                                                                                                                                                                                                    \o stack[self]]
+                                                                                                                                                                                            /\ old_c' = [old_c EXCEPT ![self] = 0]
+                                                                                                                                                                                            /\ tws' = [tws EXCEPT ![self] = <<>>]
+                                                                                                                                                                                            /\ alr' = [alr EXCEPT ![self] = FALSE]
+                                                                                                                                                                                            /\ rmq' = [rmq EXCEPT ![self] = <<>>]
+                                                                                                                                                                                            /\ pc' = [pc EXCEPT ![self] = "cs_1_ld"]
                                                                                                                                                                                             /\ UNCHANGED << sem, 
                                                                                                                                                                                                             note, 
                                                                                                                                                                                                             nreg, 
                                                                                                                                                                                                             ret, 
                                                                                                                                                                                                             muFreed, 
-                                                                                                                                                                                                            refs >>
-                                                                                                                                                                                       ELSE /\ IF CurOp(self).op = "notify"
-                                                                                                                                                                                                  THEN /\ ip' = [ip EXCEPT ![self] = ip[self] + 1]
-                                                                                                                                                                                                       /\ note' = TRUE
-                                                                                                                                                                                                       /\ sem' = [u \in Waiters |-> IF u \in nreg THEN SetV(sem[u]) ELSE sem[u]]
-                                                                                                                                                                                                       /\ nreg' = {}
-                                                                                                                                                                                                       /\ UNCHANGED << ret, 
-                                                                                                                                                                                                                       muFreed, 
-                                                                                                                                                                                                                       refs >>
-                                                                                                                                                                                                  ELSE /\ IF CurOp(self).op = "decref"
-                                                                                                                                                                                                             THEN /\ ip' = [ip EXCEPT ![self] = ip[self] + 1]
-                                                                                                                                                                                                                  /\ ret' = [ret EXCEPT ![self] = IF refs = 1 THEN 1 ELSE 0]
-                                                                                                                                                                                                                  /\ refs' = refs - 1
-                                                                                                                                                                                                                  /\ UNCHANGED muFreed
-                                                                                                                                                                                                             ELSE /\ IF CurOp(self).op = "freeiflast"
-                                                                                                                                                                                                                        THEN /\ ip' = [ip EXCEPT ![self] = ip[self] + 1]
-                                                                                                                                                                                                                             /\ IF ret[self] = 1
-                                                                                                                                                                                                                                   THEN /\ muFreed' = TRUE
-                                                                                                                                                                                                                                   ELSE /\ TRUE
-                                                                                                                                                                                                                                        /\ UNCHANGED muFreed
-                                                                                                                                                                                                                        ELSE /\ ip' = [ip EXCEPT ![self] = ip[self] + 1]
-                                                                                                                                                                                                                             /\ UNCHANGED muFreed
-                                                                                                                                                                                                                  /\ UNCHANGED << ret, 
-                                                                                                                                                                                                                                  refs >>
-                                                                                                                                                                                                       /\ UNCHANGED << sem, 
-                                                                                                                                                                                                                       note, 
-                                                                                                                                                                                                                       nreg >>
-                                                                                                                                                                                            /\ pc' = [pc EXCEPT ![self] = "c0"]
-                                                                                                                                                                                            /\ UNCHANGED << stack, 
+                                                                                                                                                                                                            refs, 
                                                                                                                                                                                                             dw, 
                                                                                                                                                                                                             k >>
-                                                                                                                                                                                 /\ UNCHANGED << all, 
-                                                                                                                                                                                                 old_c, 
-                                                                                                                                                                                                 tws, 
-                                                                                                                                                                                                 alr, 
-                                                                                                                                                                                                 rmq >>
-                                                                                                                                                           /\ UNCHANGED << mw, 
-                                                                                                                                                                           pool, 
-                                                                                                                                                                           nalloc, 
-                                                                                                                                                                           ndl, 
-                                                                                                                                                                           old, 
-                                                                                                                                                                           wq >>
-                                                                                                                                     /\ UNCHANGED << dl, 
-                                                                                                                                                     cn, 
-                                                                                                                                                     old_cv, 
-                                                                                                                                                     lt_c, 
-                                                                                                                                                     rc_c, 
-                                                                                                                                                     so, 
-                                                                                                                                                     out >>
-                                                                                                               /\ UNCHANGED << c, 
-                                                                                                                               dl_, 
-                                                                                                                               cn_, 
-                                                                                                                               old_mu_w, 
-                                                                                                                               lt_, 
-                                                                                                                               first, 
-                                                                                                                               out_, 
-                                                                                                                               rc_, 
-                                                                                                                               hadw, 
-                                                                                                                               ata, 
-                                                                                                                               so_, 
-                                                                                                                               havel >>
-                                                                                         /\ data' = data
+                                                                                                                                                                                       ELSE /\ IF CurOp(self).op = "debug"
+                                                                                                                                                                                                  THEN /\ ip' = [ip EXCEPT ![self] = ip[self] + 1]
+                                                                                                                                                                                                       /\ stack' = [stack EXCEPT ![self] = << [ procedure |->  "debug_state",
+                                                                                                                                                                                                                                                pc        |->  "c0",
+                                                                                                                                                                                                                                                dw        |->  dw[self],
+                                                                                                                                                                                                                                                k         |->  k[self] ] >>
+                                                                                                                                                                                                                                            \o stack[self]]
+                                                                                                                                                                                                       /\ dw' = [dw EXCEPT ![self] = 0]
+                                                                                                                                                                                                       /\ k' = [k EXCEPT ![self] = 0]
+                                                                                                                                                                                                       /\ pc' = [pc EXCEPT ![self] = "db_1_ld"]
+                                                                                                                                                                                                       /\ UNCHANGED << sem, 
+                                                                                                                                                                                                                       note, 
+                                                                                                                                                                                                                       nreg, 
+                                                                                                                                                                                                                       ret, 
+                                                                                                                                                                                                                       muFreed, 
+                                                                                                                                                                                                                       refs >>
+                                                                                                                                                                                                  ELSE /\ IF CurOp(self).op = "notify"
+                                                                                                                                                                                                             THEN /\ ip' = [ip EXCEPT ![self] = ip[self] + 1]
+                                                                                                                                                                                                                  /\ note' = TRUE
+                                                                                                                                                                                                                  /\ sem' = [u \in Waiters |-> IF u \in nreg THEN SetV(sem[u]) ELSE sem[u]]
+                                                                                                                                                                                                                  /\ nreg' = {}
+                                                                                                                                                                                                                  /\ UNCHANGED << ret, 
+                                                                                                                                                                                                                                  muFreed, 
+                                                                                                                                                                                                                                  refs >>
+                                                                                                                                                                                                             ELSE /\ IF CurOp(self).op = "decref"
+                                                                                                                                                                                                                        THEN /\ ip' = [ip EXCEPT ![self] = ip[self] + 1]
+                                                                                                                                                                                                                             /\ ret' = [ret EXCEPT ![self] = IF refs = 1 THEN 1 ELSE 0]
+                                                                                                                                                                                                                             /\ refs' = refs - 1
+                                                                                                                                                                                                                             /\ UNCHANGED muFreed
+                                                                                                                                                                                                                        ELSE /\ IF CurOp(self).op = "freeiflast"
+                                                                                                                                                                                                                                   THEN /\ ip' = [ip EXCEPT ![self] = ip[self] + 1]
+                                                                                                                                                                                                                                        /\ IF ret[self] = 1
+                                                                                                                                                                                                                                              THEN /\ muFreed' = TRUE
+                                                                                                                                                                                                                                              ELSE /\ TRUE
+                                                                                                                                                                                                                                                   /\ UNCHANGED muFreed
+                                                                                                                                                                                                                                   ELSE /\ ip' = [ip EXCEPT ![self] = ip[self] + 1]
+                                                                                                                                                                                                                                        /\ UNCHANGED muFreed
+                                                                                                                                                                                                                             /\ UNCHANGED << ret, 
+                                                                                                                                                                                                                                             refs >>
+                                                                                                                                                                                                                  /\ UNCHANGED << sem, 
+                                                                                                                                                                                                                                  note, 
+                                                                                                                                                                                                                                  nreg >>
+                                                                                                                                                                                                       /\ pc' = [pc EXCEPT ![self] = "c0"]
+                                                                                                                                                                                                       /\ UNCHANGED << stack, 
+                                                                                                                                                                                                                       dw, 
+                                                                                                                                                                                                                       k >>
+                                                                                                                                                                                            /\ UNCHANGED << all, 
+                                                                                                                                                                                                            old_c, 
+                                                                                                                                                                                                            tws, 
+                                                                                                                                                                                                            alr, 
+                                                                                                                                                                                                            rmq >>
+                                                                                                                                                                      /\ UNCHANGED << mw, 
+                                                                                                                                                                                      pool, 
+                                                                                                                                                                                      nalloc, 
+                                                                                                                                                                                      ndl, 
+                                                                                                                                                                                      old, 
+                                                                                                                                                                                      wq >>
+                                                                                                                                                /\ UNCHANGED << dl, 
+                                                                                                                                                                cn, 
+                                                                                                                                                                gen, 
+                                                                                                                                                                old_cv, 
+                                                                                                                                                                lt_c, 
+                                                                                                                                                                rc_c, 
+                                                                                                                                                                so, 
+                                                                                                                                                                out >>
+                                                                                                                          /\ UNCHANGED << c, 
+                                                                                                                                          dl_, 
+                                                                                                                                          cn_, 
+                                                                                                                                          old_mu_w, 
+                                                                                                                                          lt_, 
+                                                                                                                                          first, 
+                                                                                                                                          out_, 
+                                                                                                                                          rc_, 
+                                                                                                                                          hadw, 
+                                                                                                                                          ata, 
+                                                                                                                                          so_, 
+                                                                                                                                          havel >>
+                                                                                                    /\ data' = data
                                                                               /\ UNCHANGED << held, 
                                                                                               lt_mu_, 
                                                                                               ww, 
@@ -4625,7 +4703,7 @@ TickUseful == \E u \in Threads : \/ (pc[u] = "sw_2_pd" /\ sdl[u] > now)
                                  \/ (pc[u] = "wn_7_pd" /\ ndl[u] > now)
 Tick == /\ now < MaxNow /\ TickUseful
         /\ now' = now + 1
-        /\ UNCHANGED <<pc, word, queue, cvword, cvq, waiting, rmc, cvmu, wl, wc, sc, nww, nwsem, sem, data, note, nreg, held, ret, sres, picked, sleeps, inlock, ip, mw, pool, nalloc, muFreed, refs, nwalive, taint3, stack, lt_l, clear, old_, zlo, zhi, wcnt, lw, lt_u, old_u, tc, nwl, wtrs, wake, wty, sor, cor, rmq_, late, lt_m, old_m, lt_mu, old_mu, lt_mu_, ww, old_mu_, sdl, scn, lt, rc, old_t, c, dl_, cn_, old_mu_w, lt_, first, out_, rc_, hadw, ata, so_, havel, tw, allr, omw, fca, sorw, all, old_c, tws, alr, rmq, dl, cn, old_cv, lt_c, rc_c, so, out, ndl, old, wq, dw, k>>
+        /\ UNCHANGED <<pc, word, queue, cvword, cvq, waiting, rmc, cvmu, wl, wc, sc, nww, nwsem, sem, data, note, nreg, held, ret, sres, picked, sleeps, inlock, ip, mw, pool, nalloc, muFreed, refs, nwalive, taint3, stack, lt_l, clear, old_, zlo, zhi, wcnt, lw, lt_u, old_u, tc, nwl, wtrs, wake, wty, sor, cor, rmq_, late, lt_m, old_m, lt_mu, old_mu, lt_mu_, ww, old_mu_, sdl, scn, lt, rc, old_t, c, dl_, cn_, old_mu_w, lt_, first, out_, rc_, hadw, ata, so_, havel, tw, allr, omw, fca, sorw, all, old_c, tws, alr, rmq, dl, cn, gen, old_cv, lt_c, rc_c, so, out, ndl, old, wq, dw, k>>
 \* Local steps (no shared operation) commute with every step of other threads, so they are taken
 \* eagerly: a thread at a local label runs before anything else happens.
 LocalPending == {u \in Threads : pc[u] \in LocalLabels}
